@@ -12,1969 +12,2103 @@ Definition show_fres (r : fres) : string :=
   end.
 Definition check (rs : list rune) : string := digest (show_fres (format_res rs)).
 Definition full (rs : list rune) : string := show_fres (format_res rs).
-Eval vm_compute in ("<<<M3722>>>" ++ check (runes_of_ascii "packet len {
-    @calculatedFrom(""`tick`"")
-    repeat zchar[00] chars `a\`,
-    u8x MetaDataX `line1
-    line2`,
+Eval vm_compute in ("<<<M3620>>>" ++ check (runes_of_ascii "options { // c1a
+  // c1b
+StringPrefixLenType =
+    // c3
+u16 ; // c5
+ArrayPrefixLenType =
+    // c7
+u8 ; FixedStringPadFromLeft // c10a
+  // c10b
+=
+    // c11
+true // c12
+; // c13a
+  // c13b
+FixedStringPadChar // c14
+= // c15
+' ' ; // c17
+} // c18a
+  // c18b
+packet // c19
+Quote
+    // c20
+{
+    // c21
+int64
+    // c22
+OrderId // c23a
+  // c23b
+, char[] // c25
+Ref // c26a
+  // c26b
+, // c27
+@leftPad ( // c29a
+  // c29b
+'0'
+    // c30
+) // c31a
+  // c31b
+char[ // c32a
+  // c32b
+5 // c33
+] // c34a
+  // c34b
+price , }
+    // c37
+packet // c38
+Heartbeat // c39
+{ zchar[ // c41
+3 ] venue , // c45a
+  // c45b
+string // c46a
+  // c46b
+Flags
+    // c47
+, // c48a
+  // c48b
+} packet // c50
+Trade
+    // c51
+{ // c52a
+  // c52b
+repeat
+    // c53
+InTag787 // c54
+{ i32 // c56
+venue // c57
+,
+    // c58
+char[ 5 ] // c61
+sym // c62a
+  // c62b
+,
+    // c63
+repeat InPx98 // c65
+{ char[ // c67a
+  // c67b
+11
+    // c68
+] Qty
+    // c70
+, // c71a
+  // c71b
+Heartbeat // c72
+, char[] // c74
+price // c75
+, // c76a
+  // c76b
+u32 // c77a
+  // c77b
+x // c78
+,
+    // c79
+float64 // c80
+count // c81a
+  // c81b
+, repeat // c83
+Quote
+    // c84
+, // c85a
+  // c85b
+} ,
+    // c87
+zchar[ // c88a
+  // c88b
+7
+    // c89
+]
+    // c90
+Note
+    // c91
+, // c92a
+  // c92b
+repeat
+    // c93
+char[ // c94a
+  // c94b
+1 ] // c96a
+  // c96b
+Tail // c97a
+  // c97b
+,
+    // c98
+} // c99a
+  // c99b
+, repeat char[ // c102
+2
+    // c103
+] // c104a
+  // c104b
+seqNo , // c106a
+  // c106b
+InTail55 // c107a
+  // c107b
+{ // c108
+repeat // c109a
+  // c109b
+Quote // c110
+, // c111
+string
+    // c112
+msgKind , // c114a
+  // c114b
+InPx18 { // c116a
+  // c116b
+char[] count ,
+    // c119
+repeat // c120
+Quote , // c122
+uint16 // c123a
+  // c123b
+Qty ,
+    // c125
+}
+    // c126
+,
+    // c127
+char[ // c128a
+  // c128b
+4 ]
+    // c130
+seqNo
+    // c131
+,
+    // c132
+repeat // c133
+Heartbeat
+    // c134
+, repeat string sym // c138
+, // c139a
+  // c139b
+} // c140
+, repeat
+    // c142
+Quote // c143
+, // c144
+Heartbeat // c145
+, @leftPad ( // c148
+' ' // c149
+) char[ 10 // c152a
+  // c152b
+] OrderId // c154a
+  // c154b
+, // c155a
+  // c155b
+} // c156
+root // c157a
+  // c157b
+packet // c158
+Fill
+    // c159
+{ Heartbeat
+    // c161
+, uint32 // c163a
+  // c163b
+count
+    // c164
+, // c165
+u8 // c166
+OrderId // c167
+,
+    // c168
+match OrderId // c170
+as
+    // c171
+Body
+    // c172
+{
+    // c173
+96 // c174
+: // c175
+Quote
+    // c176
+,
+    // c177
+195
+    // c178
+: // c179
+Trade // c180a
+  // c180b
+, // c181a
+  // c181b
+187
+    // c182
+:
+    // c183
+Heartbeat // c184
+,
+    // c185
+}
+    // c186
+, u32
+    // c188
+venue // c189
+@calculatedFrom(
+    // c190
+""CRC32"" )
+    // c192
+,
+    // c193
+} ")).
+Eval vm_compute in ("<<<M412>>>" ++ check (runes_of_ascii "  root packet packetx { char[]  pack @lengthOf(
+    string_
+    // " ++ [128512]%N ++ runes_of_ascii " emoji
+    ) `doc`,
+    u32  float @lengthOf( a1) // `tick` ""quote"" 'q'
+`two words` , match  a1 as
+    // " ++ [27880; 37322]%N ++ runes_of_ascii "
+    o {7 : _x
+    ,
+} , repeat msg_type { o uint8x
+`crlf
+line` , }
+,char[] // `tick` ""quote"" 'q'
+u8x @lengthOf(msg_type
+)
+// " ++ [128512]%N ++ runes_of_ascii " emoji
+//
+,@calculatedFrom( ""CRC32"" )
+    i16 repeatCount
+@calculatedFrom(""a\""b""  ) , zchar[
+10 ]_x
+`line1
+line2` ,	zchar[
+10 ]
+    x `u8 x,` ,char[  0123456789
+]
+    uint8x , @calculatedFrom( ""x y"" ) int32
+//	t
+// c
+i8i8
+, }	options// " ++ [27880; 37322]%N ++ runes_of_ascii "
+{
+matchKey =""it's"" } packet
+    msg_type // packet A { u8 x, }
+{
+// trailing space 
+//
+match lengthOf as Logon { [ ""x y"" , ""a	b"", ""{,}"" ,  """ ++ [28040; 24687]%N ++ runes_of_ascii """,
+    ""{,}"" ,""{,}""
+    ]
+    // packet A { u8 x, }
+    : asx, [ """ ++ [233]%N ++ runes_of_ascii "t" ++ [233]%N ++ runes_of_ascii """
+] :
+trueish , 255
+    : Pad ,
+[""`tick`""
+, ""{,}"" ,// " ++ [128512]%N ++ runes_of_ascii " emoji
+4294967296
+, 4294967296, ""a\""b"" , ""\" ++ [233]%N ++ runes_of_ascii """
+, 0123456789 ] : u128 ,
+    ""it's"" // c
+: pack	, ""abc"":o,
+    }
+    , f32 zchar `it's`,@calculatedFrom( ""a	b"" )zchar[
+1
+]
+    msg_type // trailing space 
+@calculatedFrom( ""it's""
+) , @calculatedFrom( ""packet"" ) BodyLength{ i16 // trailing space 
+_x`{ , }`
+    //x
+    , i8
+    body `crlf
+line` ,  }
+    // packet A { u8 x, }
+    , repeat i64 uint8x
+    `say ""hi""`, // c
+} packet// a // b
+chars{ match x as options1 { 3 : //
+tag
+10
+    //x
+    :
+// a // b
+// a // b
+repeatCount[
+    65535 ] :
+len ,255 : tag  00 :
+    BodyLength }, @calculatedFrom( ""{,}"" ) MetaDataX,
+@tag(
+0
+// trailing space 
+//	t
+)repeat
+stringy	len , //	t
+@calculatedFrom( ""a	b"" )/// triple
+zchar[ 0123456789] lengthOf @lengthOf(
+A
+    )
+    `u8 x,` , @lengthOf(falsey
+    ) T
+    `// not a comment`
+,i8i8,Logon  { match
+crc as BodyLength { ""1"" : // trailing space 
+trueish ,
+    // " ++ [27880; 37322]%N ++ runes_of_ascii "
+    ""a\""b""
+    :
+matchKey , [ ""x y""] : tag
+    ,
+// trailing space 
+// " ++ [128512]%N ++ runes_of_ascii " emoji
+}
+, float @calculatedFrom(
+    """ ++ [233]%N ++ runes_of_ascii "t" ++ [233]%N ++ runes_of_ascii """ ) `line1
+line2` , msg_type@lengthOf(  i8i8)
+, calculatedFrom uint8x`tab	here`,
+// a // b
+//	t
+}
+    ,
+    }")).
+Eval vm_compute in ("<<<M4509>>>" ++ check (runes_of_ascii "packet zchar {
+    match calculatedFrom as repeatCount {
+        [""{,}""] : zchar,
+        00 : Pad,
+        0 : pack,
+    },// @lengthOf(
+    f64 o `" ++ [28040; 24687; 31867; 22411]%N ++ runes_of_ascii "`,
+    int32 f32a @lengthOf(body) `
+    `,
+    char[3] chars `crlf
+    line`,
+}
+
+// @lengthOf(
+// packet A { u8 x, }
+MetaData metadata {
+    string int,
+    len lengthOf,
+}
+
+root packet A {
+    @tag(0123456789)
+    zchar[0123456789] BodyLength,
+    @leftPad('0')
+    @rightPad(' ')
+    zchar[0123456789] tag `it's`,
+    @tag(007)
+    // trailing space 
+    @tag(7)
+    falsey @calculatedFrom(""\" ++ [233]%N ++ runes_of_ascii """),
+    @calculatedFrom(""{,}"")
+    repeat Packet,
+    @lengthOf(u)
     @calculatedFrom(""a\""b"")
-    match matchKey as asx {
-        [""CRC32"", ""a\""b""] : msg_type,
-    },
-    i8 string_ @calculatedFrom(""{,}""),
     @lengthOf(lengthOf)
-    zchar[42] _x `line1
-    line2`,
-    @lengthOf(asx)
-    repeat int8 Header,
-    repeat crc {
-        int8 i64_ @calculatedFrom(""{,}""),
+    char[] uint8x,
+    @leftPad('\x00')
+    // trailing space 
+    repeat T {
+        i8i8 a1,
+        char[65535] chars `u8 x,`,
+        Pad,
     },
-    repeat _x i8i8 `line1
-    line2`,
-    float64 stringy,
-    MetaDataX {
-        charz {
-            int16 matchKey,
-            repeat i64_,
-            char[00] Z9_ `
-            `,
-            match As as Packet {
-                3 : crc,
-                [1, 00] : Header,
-                255 : _x,
-                42 : body,
-                [0] : chars,
-                [4294967296, 65535] : chars,
+    @lengthOf(o)
+    u8 x,
+    @calculatedFrom(""a	b"")
+    lengthOf `// not a comment`,
+    A {
+        repeat calculatedFrom matchKey,
+        options1 @calculatedFrom(""a	b""),// trailing space 
+        repeat u `line1
+        line2`,
+    },
+}
+
+packet i8i8 {
+}
+
+packet pack {
+    zchar[0123456789] leftPad `
+    `,
+    @rightPad('\x00')
+    repeat int `" ++ [28040; 24687; 31867; 22411]%N ++ runes_of_ascii "`,
+    match Packet as BodyLength {
+        [00, 7] : falsey,
+    },
+    @tag(00)
+    repeat zchar[1] len `u8 x,`,
+    @leftPad()
+    rootA @lengthOf(len),
+    @tag(42)
+    // `tick` ""quote"" 'q'
+    @lengthOf(i64_)
+    repeat len {
+        x {
+            Logon {
+                options1 Logon,
             },
+            stringy {
+                string body @lengthOf(tag),
+            },
+            falsey falsey,
+        },
+        MetaDataX roots `// not a comment`,
+    },
+}")).
+Eval vm_compute in ("<<<M68>>>" ++ check (runes_of_ascii "MetaData
+len { i8 BodyLength , u32
+    u `tab	here`,
+    // `tick` ""quote"" 'q'
+    calculatedFrom	asx `" ++ [28040; 24687; 31867; 22411]%N ++ runes_of_ascii "` /// triple
+,
+Logon Packet `// not a comment`
+    ,
+    } //
+root packet string_ { zchar[ 00
+]
+options1	, match
+x_y_z as msg_type{	""it's""
+    // c
+    :  T 0123456789: a1 10 :
+trueish
+, } ,} packet
+len { int64 crc ,  body {
+f64 leftPad , a1, }
+    , repeat uint8x {repeat f32
+string_`" ++ [28040; 24687; 31867; 22411]%N ++ runes_of_ascii "`
+    , int8 T @calculatedFrom( """"
+    ) `line1
+line2` ,
+uint8 repeatCount	,
+} , u64 Foo `line1
+line2`	, @tag(1 ) repeat
+matchKey
+{ i8	x_y_z @lengthOf(Z9_ )// packet A { u8 x, }
+`tab	here` , calculatedFrom
+trueish// trailing space 
+, uint16 charz
+    // packet A { u8 x, }
+    @calculatedFrom(
+    ""{,}"" )`line1
+line2`	, } ,
+// @lengthOf(
+//
+uint32
+    metadata, @lengthOf( msg_type )repeat Packet { zchar[
+255
+]u8x @calculatedFrom( ""x y"")
+//
+// packet A { u8 x, }
+`crlf
+line`	, repeat
+// `tick` ""quote"" 'q'
+//
+u128 ,// packet A { u8 x, }
+float64 int ,
+    repeat Header	{ char[ 42 ]roots
+    @calculatedFrom(
+    //	t
+    ""CRC32"") `two words`,
+roots @calculatedFrom( ""a	b"" ) `two words`
+// packet A { u8 x, }
+// c
+, u32
+    // c
+    packetx
+@lengthOf( roots
+) , repeat float	BodyLength	`" ++ [233]%N ++ runes_of_ascii "` , } , }	,match
+float
+as A
+{	[ 7 , ""a	b"" ]
+:	Header ,[
+007	, ""1""
+    ]
+// @lengthOf(
+// @lengthOf(
+: charz
+    , ""\" ++ [233]%N ++ runes_of_ascii """ : i8i8 00 :	charz // packet A { u8 x, }
+42	:i64_
+, } , match
+// `tick` ""quote"" 'q'
+//
+uint8x as u8x{ 255 :
+    int } ,	}
+")).
+Eval vm_compute in ("<<<M449>>>" ++ check (runes_of_ascii "packet f32a
+{ @calculatedFrom( // " ++ [27880; 37322]%N ++ runes_of_ascii "
+""" ++ [128512]%N ++ runes_of_ascii """ )	char[65535
+    ] Logon , }
+    packet calculatedFrom { char[ 00
+// c
+// @lengthOf(
+]
+    x `u8 x,` , repeat u8x{
+repeat float64
+Packet ,} ,
+    repeat
+    Z9_ leftPad, @calculatedFrom(""{,}"" )  repeat	Header	Foo , @tag(
+    4294967296)
+    @calculatedFrom(
+""it's"" )@lengthOf(Logon )char[ 10
+    /// triple
+    ] len ``, char[ 7
+    ] lengthOf
+// a // b
+// " ++ [128512]%N ++ runes_of_ascii " emoji
+@calculatedFrom( """ ++ [28040; 24687]%N ++ runes_of_ascii """ ) `
+`,
+    // @lengthOf(
+    @lengthOf(i8i8
+)  repeat //	t
+string_ trueish `doc`
+    ,
+    // " ++ [27880; 37322]%N ++ runes_of_ascii "
+    match BodyLength // a // b
+as //	t
+rootA // @lengthOf(
+{
+""packet"": uint8x , }, match u128  as float {""" ++ [233]%N ++ runes_of_ascii "t" ++ [233]%N ++ runes_of_ascii """
+: stringy	""packet"" : lengthOf , """ ++ [233]%N ++ runes_of_ascii "t" ++ [233]%N ++ runes_of_ascii """
+:
+    // " ++ [27880; 37322]%N ++ runes_of_ascii "
+    lengthOf,""" ++ [128512]%N ++ runes_of_ascii """ :
+    lengthOf,""it's"" :As [""// no comment""	]  : int
+// " ++ [27880; 37322]%N ++ runes_of_ascii "
+/// triple
+,},
+    }	root packet // " ++ [27880; 37322]%N ++ runes_of_ascii "
+_x	{Header `say ""hi""` ,
+@leftPad ( '\x00' )@lengthOf( Packet
+    ) @rightPad	( ' '  )string msg_type
+    @calculatedFrom( """ ++ [233]%N ++ runes_of_ascii "t" ++ [233]%N ++ runes_of_ascii """// " ++ [128512]%N ++ runes_of_ascii " emoji
+) `tab	here` ,
+i64
+zchar //	t
+`crlf
+line`
+,i32
+x_y_z, @tag( 7  ) @leftPad
+(' ' )
+@calculatedFrom(
+//
+//	t
+""1""
+    )falsey`two words` , } // " ++ [27880; 37322]%N ++ runes_of_ascii "
+packet metadata { f64 u8x,
+u16  o `crlf
+line`
+    ,  msg_type {
+u8 a1 @lengthOf( u ) `it's`  ,// trailing space 
+}
+,@lengthOf( rootA /// triple
+) f32a { repeat
+    u16 uint8x, }
+,//
+}
+    options {
+} // " ++ [128512]%N ++ runes_of_ascii " emoji")).
+Eval vm_compute in ("<<<M1323>>>" ++ check (runes_of_ascii "packet// c
+lengthOf
+{ matchKey `doc` , i8i8
+{ match crc  as zchar
+    {	[ 1, ""abc"" ,	0 ,
+    0123456789,
+65535 ]
+    :chars , ""\n"" : uint8x ""a\""b"":  int ,[
+""`tick`""
+    ,""a	b"" , ""a	b""
+    ,4294967296 , 4294967296	, """" , ""a\""b"" ] :
+string_ ,
+0123456789 :// @lengthOf(
+A
+    ,""packet""
+    // a // b
+    :asx  } ,char[00
+//
+//
+] u8x
+`u8 x,`, u8x { uint32 float
+@calculatedFrom( ""{,}"")
+,
+//	t
+// " ++ [128512]%N ++ runes_of_ascii " emoji
+char[
+0
+// trailing space 
+// `tick` ""quote"" 'q'
+] zchar
+    ,	}, falsey@calculatedFrom( """ ++ [128512]%N ++ runes_of_ascii """ )
+    ,} // packet A { u8 x, }
+, @calculatedFrom( ""1"" )
+zchar[
+255
+    ]
+// @lengthOf(
+//
+metadata
+@lengthOf(	packetx	) , Header @calculatedFrom(
+""CRC32"" ) ,
+// c
+// trailing space 
+float @lengthOf(crc ) ``, @tag(42 )@lengthOf(
+    A ) @lengthOf( u128) stringy// " ++ [27880; 37322]%N ++ runes_of_ascii "
+`" ++ [233]%N ++ runes_of_ascii "` ,	@leftPad ( '0')
+    char[4294967296  ]
+float , u`" ++ [233]%N ++ runes_of_ascii "` ,@lengthOf(falsey ) // @lengthOf(
+@lengthOf( /// triple
+lengthOf
+) repeat f32 matchKey `line1
+line2`
+    ,
+}
+options
+    { lengthOf= string;}packet falsey{
+@tag( 1
+)int16 repeatCount
+@lengthOf( charz
+)
+`a\` // @lengthOf(
+, repeat u64 MetaDataX `say ""hi""` , } options {  x
+    = // packet A { u8 x, }
+""abc"" }
+MetaData BodyLength {zchar[ 4294967296]	zchar ,}")).
+Eval vm_compute in ("<<<M1358>>>" ++ check (runes_of_ascii "root  packet
+roots {
+repeat rootA`{ , }`
+,BodyLength, @lengthOf(
+    int )
+    u64	pack
+`// not a comment` , chars @lengthOf( crc
+) // packet A { u8 x, }
+,
+// @lengthOf(
+// `tick` ""quote"" 'q'
+tag `u8 x,` , match x_y_z	as chars{// " ++ [128512]%N ++ runes_of_ascii " emoji
+[ 65535 ,""x y""// a // b
+,
+    10	, 4294967296]: //x
+repeatCount,
+[ 255 ] // @lengthOf(
+: i8i8,4294967296
+    : metadata
+, [ 10 , """", 255 ,0 , ""abc""
+    , 10 ]  :rootA
+    // @lengthOf(
+    ,
+[ ""1"" , ""1""
+    ]
+:uint8x , ["""" , 10
+    // trailing space 
+    ]
+:
+    options1 ,} ,  }packet trueish {uint16
+i64_ , }
+    packet zchar
+    {Logon {
+// " ++ [27880; 37322]%N ++ runes_of_ascii "
+// @lengthOf(
+match pack as
+asx {[
+1 ,// `tick` ""quote"" 'q'
+10] : Logon , [7 ]: pack
+, [
+42,  ""// no comment"" ,
+    7 ,00 ,65535
+]
+    : x
+, //
+""1""
+: uint8x, """" :A 65535	:
+u8x } ,
+}  ,x `u8 x,`, @tag( 65535
+) string stringy `say ""hi""`  , repeat uint16 leftPad `
+` ,
+match options1
+as Foo
+    { ""abc"" : falsey	,
+3:	T
+    ,}
+,zchar[ 4294967296 ]
+charz
+    @lengthOf(	As) , i64 Packet , @lengthOf( MetaDataX ) @lengthOf( metadata	) @calculatedFrom( """ ++ [128512]%N ++ runes_of_ascii """ ) uint8 T @calculatedFrom( """ ++ [128512]%N ++ runes_of_ascii """ ) `" ++ [233]%N ++ runes_of_ascii "` , } // `tick` ""quote"" 'q'")).
+Eval vm_compute in ("<<<M252>>>" ++ check (runes_of_ascii "packet u  { Header {
+float64	Foo@lengthOf( Pad
+    ) `{ , }`,	leftPad @calculatedFrom(""a	b"" )
+    ,msg_type {
+Z9_	@lengthOf(
+    u8x ) ,
+    falsey , len @lengthOf( float // " ++ [27880; 37322]%N ++ runes_of_ascii "
+) `it's`
+    , repeat int64
+options1	`a\` , } , // trailing space 
+} ,
+//	t
+// " ++ [128512]%N ++ runes_of_ascii " emoji
+falsey// `tick` ""quote"" 'q'
+u8x , zchar[  1 ]
+x `` ,
+    @lengthOf( uint8x
+) crc
+    @lengthOf(matchKey )  , repeat f32 string_
+// `tick` ""quote"" 'q'
+//
+,packetx,
+    // " ++ [27880; 37322]%N ++ runes_of_ascii "
+    u8x
+    { f64
+Header , repeat uint8 uint8x , x_y_z
+{  match string_
+// " ++ [27880; 37322]%N ++ runes_of_ascii "
+//	t
+as a1 { [// `tick` ""quote"" 'q'
+255
+]  : f32a// @lengthOf(
+, [
+""packet""  ,""1"" , 00 ,
+    """ ++ [128512]%N ++ runes_of_ascii """,  4294967296 , 4294967296]:Logon , } , pack @lengthOf( options1 ), zchar[  1 ] crc ``,}	, } , rootA zchar ,}
+options { uint8x
+= 4294967296
+// " ++ [27880; 37322]%N ++ runes_of_ascii "
+// @lengthOf(
+tag // `tick` ""quote"" 'q'
+=
+float32 ; o = true ; // trailing space 
+rootA =
+    // @lengthOf(
+    ""packet"" ; } //x
+packet float
+    {
+    } // " ++ [27880; 37322]%N ++ runes_of_ascii "
+options	{ // " ++ [27880; 37322]%N ++ runes_of_ascii "
+msg_type// c
+= i16 ;
+    trueish = zchar[ 1 ] ; Logon =
+    ""abc"" rootA = i16 ; } MetaData rootA
+{
+}
+")).
+Eval vm_compute in ("<<<M204>>>" ++ check (runes_of_ascii "options {
+chars  =
+    //x
+    ' '	}
+root packet	string_ {i8i8 @lengthOf(
+Z9_ )
+,	match int as chars // c
+{ 007: body	,[ // packet A { u8 x, }
+42 ] : int	, ""`tick`"" : options1
+, } ,
+@leftPad ( ' ' )uint16 crc `it's` , // a // b
+float64  packetx
+@lengthOf( crc // " ++ [27880; 37322]%N ++ runes_of_ascii "
+)// trailing space 
+, @tag(4294967296
+) match int
+as chars{4294967296
+    : Foo ,
+1:
+asx 10
+: Pad
+    0123456789	: string_
+,
+3
+// " ++ [27880; 37322]%N ++ runes_of_ascii "
+// " ++ [128512]%N ++ runes_of_ascii " emoji
+: T , ""it's""  : As  } , repeat  float falsey `say ""hi""`  ,
+match uint8x as zchar { ""// no comment""
+    : body
+, 0123456789 : crc , ""{,}"" : o } ,repeat o chars ,uint32
+As
+`doc` ,
+repeat trueish
+{ char[
+    7
+] i64_
+`{ , }`  , }
+, } packet
+    Packet {
+zchar[ 0123456789 ] matchKey @lengthOf( chars
+)  ,  x
+//	t
+// a // b
+{
+u64 o ,} , zchar[
+    // a // b
+    1 ]
+    MetaDataX
+@calculatedFrom(
+"""" ), char[]lengthOf// trailing space 
+@calculatedFrom( // " ++ [27880; 37322]%N ++ runes_of_ascii "
+""a\""b""
+) `
+` ,@rightPad( ' ' ) //	t
+uint16
+len `a\` , @lengthOf( //x
+tag )
+char[ 65535
+] pack ``, }
+")).
+Eval vm_compute in ("<<<M196>>>" ++ check (runes_of_ascii "/// triple
+MetaData roots
+    { string
+Z9_ `say ""hi""`
+    //
+    ,o
+    tag ,char[4294967296 // " ++ [128512]%N ++ runes_of_ascii " emoji
+] body `crlf
+line`
+,
+    _x lengthOf `tab	here` , } options { repeatCount	= ""x y"" ; T = """ ++ [28040; 24687]%N ++ runes_of_ascii """ }
+    /// triple
+    packet int{ @calculatedFrom( ""CRC32"" )int64 f32a, roots @calculatedFrom( ""it's"" )`` ,@calculatedFrom(""a\\"" )@tag( 007 ) char[ 255//	t
+] crc @lengthOf(packetx )
+    ,
+match
+    Pad as string_ { [""\" ++ [233]%N ++ runes_of_ascii """,3
+    // " ++ [27880; 37322]%N ++ runes_of_ascii "
+    ] : lengthOf  ,[ 42
+    ]:
+// packet A { u8 x, }
+// packet A { u8 x, }
+body ,
+7 : i8i8
+    ,0123456789:
+options1
+,//x
+[ 00 ] : Z9_ ,  }// @lengthOf(
+,float
+,// " ++ [27880; 37322]%N ++ runes_of_ascii "
+} MetaData zchar
+    {
+    zchar[
+3 ]
+    options1
+    `line1
+line2` ,}  packet asx
+{ zchar[
+    42// " ++ [128512]%N ++ runes_of_ascii " emoji
+]
+falsey ,	@calculatedFrom(
+""1""
+)
+repeat string As `" ++ [233]%N ++ runes_of_ascii "`, char[] trueish
+    , int32 Header , repeat  stringy
+`crlf
+line`, string
+x_y_z,
+f64 T
+//x
+// `tick` ""quote"" 'q'
+, uint8x
+@lengthOf( charz
+)
+    `a\` , }")).
+Eval vm_compute in ("<<<M3649>>>" ++ check (runes_of_ascii "options {
+    LittleEndian = false;
+    FixedStringPadFromLeft = false;
+    FixedStringPadChar = ' ';
+}
+packet Fill {
+    uint16 Qty,
+    uint64 clOrdID,
+    repeat i64 Flags,
+}
+packet Ack {
+    zchar[7] clOrdID,
+    u64 lastPx,
+    char[] Note,
+    repeat Fill,
+    int32 count,
+}
+packet Quote {
+    u8 venue,
+    InRef40 {
+        char[] Qty,
+    },
+    zchar[5] Flags,
+    @rightPad('\x00') char[12] msgKind,
+}
+packet Logout {
+    InSym79 {
+        int32 Qty,
+        Fill,
+        char[3] x,
+        repeat InNote29 {
+            i16 price,
+            Ack,
+            f64 x,
+            zchar[8] count,
         },
     },
+}
+root packet Logon {
+    zchar[1] sym,
+    u32 count,
+    u16 tag7 @lengthOf(Body),
+    match count as Body {
+        [122, 152] : Ack,
+        118 : Logout,
+        61 : Quote,
+        161 : Fill,
+    },
+    u32 Acct @calculatedFrom(""CRC32""),
+}
+")).
+Eval vm_compute in ("<<<M759>>>" ++ check (runes_of_ascii "packet x {
+    u16
+    msg_type @lengthOf(BodyLength ) ,// trailing space 
+@calculatedFrom(  """ ++ [28040; 24687]%N ++ runes_of_ascii """ ) repeat Header { char[
+    0123456789 ] // " ++ [128512]%N ++ runes_of_ascii " emoji
+repeatCount ,zchar[ 7] i64_
+@calculatedFrom(
+""" ++ [28040; 24687]%N ++ runes_of_ascii """ ) , repeat T zchar`tab	here`,
+    } , uint8
+    body`doc`, repeat char[]i8i8 ,
+uint32 f32a@calculatedFrom(
+""`tick`""
+// packet A { u8 x, }
+// packet A { u8 x, }
+) ,
+@rightPad ( ' ' ) match
+rootA as matchKey{
+42:
+lengthOf
+    // `tick` ""quote"" 'q'
+    ""// no comment"" : Z9_ , [""a\\"" , /// triple
+1]:
+    // @lengthOf(
+    len
+, 10
+:trueish,
+    }
+    ,
+    f64 Logon
+@lengthOf( T ) //
+`crlf
+line` , match
+/// triple
+// @lengthOf(
+float	as i8i8 { ""\n"": i64_ , } ,
+@lengthOf( u8x)// trailing space 
+@leftPad
+('\x00'
+    ) char[  007] body	`it's` , @leftPad (
+'0' )
+    string crc @calculatedFrom( ""a\\"" ) `" ++ [28040; 24687; 31867; 22411]%N ++ runes_of_ascii "`  , }
+")).
+Eval vm_compute in ("<<<M1346>>>" ++ check (runes_of_ascii "packet	i64_
+    // `tick` ""quote"" 'q'
+    { @lengthOf(  charz )  zchar[
+00  ]charz	`
+`	,@rightPad ( '0')
+@calculatedFrom(  ""`tick`"" ) i16 charz , repeat Pad { uint8x
+MetaDataX , int { repeat // packet A { u8 x, }
+uint64 u8x ,// packet A { u8 x, }
+repeat
+    // `tick` ""quote"" 'q'
+    uint8x
+    { // a // b
+repeat Z9_
+x_y_z ,
+    match
+    x_y_z
+// a // b
+// a // b
+as _x {
+    007 :crc	,
+[ 00 ,  0
+, 1 , 007 ,
+4294967296 ]:
+    u128
+,  }
+, char[
+    42
+//	t
+//
+] float,}, } , char[]x
+    ,repeat
+zchar  {
+match
+Logon  as rootA {	0
+:
+    chars , [ 42
+] :repeatCount
+    // c
+    ,
+""" ++ [233]%N ++ runes_of_ascii "t" ++ [233]%N ++ runes_of_ascii """
+:	BodyLength, ""x y"" : Z9_
+, [4294967296	, 42 ,
+3 , 255 , 00 ,
+    ""x y"" , 10
+    , 42 ]
+    : falsey , }, },
+}  , }// a // b
+packet	options1// " ++ [128512]%N ++ runes_of_ascii " emoji
+{ // c
+len @lengthOf(T
+), }")).
+Eval vm_compute in ("<<<M4137>>>" ++ check (runes_of_ascii "root packet pack {
 }
 
 MetaData falsey {
-    char[255] u128,
-    u8 Header `tab	here`,
-    string float,
-}
-
-root packet int {
-    Logon i64_,
-    @calculatedFrom(""1"")
-    zchar {
-        u {
-            zchar[255] Pad,
-        },
-        stringy {
-            Pad metadata `u8 x,`,
-        },
-        repeat string i8i8,
-        char[] As @calculatedFrom(""\n""),
-    },
-    @lengthOf(packetx)
-    @lengthOf(i64_)
-    body `line1
-    line2`,
-    @lengthOf(roots)
-    match MetaDataX as uint8x {
-        // `tick` ""quote"" 'q'
-        [007, 255, 00] : body,
-        [
-            65535, 1, 1, 0, ""1"",
-            ""\n"", ""CRC32""
-        ] : trueish,
-    },
-    uint64 Foo,
-    zchar {
-        metadata @lengthOf(Pad) `crlf
-        line`,
-        match u as charz {
-            65535 : int,
-            [""1""] : a1,
-            [4294967296, 00, 00, """ ++ [233]%N ++ runes_of_ascii "t" ++ [233]%N ++ runes_of_ascii """, """ ++ [28040; 24687]%N ++ runes_of_ascii """] : matchKey,
-            [""a\\""] : Logon,
-        },
-        repeat rootA {
-            int16 Foo @lengthOf(rootA),
-            options1 `u8 x,`,
-        },
-    },
-    match chars as u {
-        [
-            007, ""it's"", """ ++ [233]%N ++ runes_of_ascii "t" ++ [233]%N ++ runes_of_ascii """, ""abc"", ""\n"",
-            """"
-        ] : repeatCount,
-        65535 : Z9_,
-        [007, ""abc"", ""// no comment"", """ ++ [28040; 24687]%N ++ runes_of_ascii """] : falsey,
-        00 : string_,
-    },
-    char repeatCount,
-}
-
-packet Foo {
-    char[] a1 @calculatedFrom("""") `line1
-    line2`,
-    uint16 MetaDataX `say ""hi""`,
-    char[] A,
-    // trailing space 
-    // " ++ [128512]%N ++ runes_of_ascii " emoji
-    f64 int @lengthOf(Pad),
-    u32 BodyLength,
-    float64 trueish @lengthOf(lengthOf) `crlf
-    line`,
-    @tag(255)
-    match Z9_ as tag {
-        [4294967296, ""a\""b"", ""{,}"", ""{,}""] : Pad,
-        1 : lengthOf,
-        0123456789 : msg_type,
-        ""// no comment"" : BodyLength,
-        [""1""] : string_,
-        [
-            3, 0, 1, 1, 00,
-            ""\" ++ [233]%N ++ runes_of_ascii """, """"
-        ] : asx,
-    },
-    body `say ""hi""`,
-}
-
-options {
-    x = '0';
-    u8x = u64;
-    // c
-    //	t
-    string_ = ""a\""b""
-}")).
-Eval vm_compute in ("<<<M667>>>" ++ check (runes_of_ascii "options  {Logon  =
-    int64 zchar =
-'0' ; x_y_z =  ""abc""
-    ; } root  packet Packet { @calculatedFrom( ""// no comment""
-) char[] o// c
-, @lengthOf( uint8x )
-i32 metadata , @rightPad (
-' '
-    )
-repeat
-Foo{ BodyLength { i8i8 `{ , }` , },
-    match _x as charz
-{42 : Pad  ,
-} , Pad zchar ,string
-charz ,
-    // trailing space 
-    }
-,
-    char[ 1 ]
-    Foo,
-@lengthOf(  f32a ) @leftPad (	'\x00' ) match calculatedFrom as
-    u8x
-{  0123456789	: Packet  ""a\""b"" // packet A { u8 x, }
-: //
-charz,
-    4294967296 :
-    f32a [ ""packet"" ]
-: zchar ,""packet""	: a1 ,  } ,
-_x
-    {repeat char[ 0 ]
-len , }
-,
-    zchar[
-//	t
-// c
-0123456789 ]pack @lengthOf( asx ),} packet Pad {
-// trailing space 
-//	t
-@lengthOf(
-u8x ) char[ 0 ]options1 `it's` , @lengthOf( body )
-u128
-{ Z9_ { string_ @calculatedFrom(""CRC32"" ) `" ++ [233]%N ++ runes_of_ascii "`
-,} //	t
-,match
-    Header as o
-    {""packet"" : i64_ , """ ++ [28040; 24687]%N ++ runes_of_ascii """ :leftPad ,3:i64_
-    , } , int8 body
-@calculatedFrom( ""a\\""
-) `
-`  ,
-repeat Pad	{ // " ++ [128512]%N ++ runes_of_ascii " emoji
-zchar[1 ]metadata @lengthOf(  Z9_ ) `// not a comment`
-,
-    rootA metadata ,
-    u32 i8i8
-@lengthOf( roots )
-,
-    repeat
-//	t
-// @lengthOf(
-uint64 pack, }, } ,
-char[ 0 ] chars
-// " ++ [128512]%N ++ runes_of_ascii " emoji
-// `tick` ""quote"" 'q'
-, i8 msg_type`" ++ [233]%N ++ runes_of_ascii "`,match u as body// c
-{ 42  : zchar} ,@leftPad
-(' '
-)asx {repeat repeatCount Z9_ ,
-repeat//	t
-zchar[ 4294967296] //
-Pad
-    , }, @tag( 255	)@tag( 255) char[ 0123456789 ]u8x ,
-    //	t
-    @calculatedFrom(""CRC32"" )// trailing space 
-char[3 ]
-Pad	`" ++ [233]%N ++ runes_of_ascii "` , @lengthOf( x_y_z ) @rightPad (// `tick` ""quote"" 'q'
-)@rightPad
-(
-    /// triple
-    ) Foo {
-    match asx	as lengthOf
-{["""" , 00 ,  ""1"", ""// no comment"",	4294967296 , 007,
-""{,}""
-    ] : MetaDataX , }
-    ,
-}
-    , } // c
-root packet crc
-// " ++ [27880; 37322]%N ++ runes_of_ascii "
-//x
-{ repeat i32	body
-    , float64
-    // c
-    Header`u8 x,`
-, string Foo
-@lengthOf( packetx // trailing space 
-)
-    , char[] As `" ++ [28040; 24687; 31867; 22411]%N ++ runes_of_ascii "`, string_ @calculatedFrom( ""\" ++ [233]%N ++ runes_of_ascii """ )
-`it's`,
-@calculatedFrom( ""CRC32"" )
-    @tag( 1
-    )	repeat trueish	packetx // @lengthOf(
-,
-}
-MetaData f32a
-{	char[] Header ,
-}
-")).
-Eval vm_compute in ("<<<M352>>>" ++ check (runes_of_ascii "MetaData	matchKey
-{ float64	string_, string pack`doc`	,Foo float `` ,x chars
-    `crlf
-line`
-    ,
-} packet Header { float64 lengthOf //x
-@lengthOf(
-    calculatedFrom ) `crlf
-line` , zchar[1 ]
-int @lengthOf( int),u8  string_,
-//x
-// c
-@tag(3 // packet A { u8 x, }
-) @tag( 10 // c
-)
-i64_
-    // " ++ [128512]%N ++ runes_of_ascii " emoji
-    {repeat	i16 body
-    //x
-    `crlf
-line` , f64 repeatCount @lengthOf( x_y_z )
-    , x{ char[ 0 ]// a // b
-int , }
-, match u128
-    as
-    MetaDataX { [ 007 ,
-    //x
-    ""// no comment"" ] : string_,
-// a // b
-// trailing space 
-0 : int,  [  42 , ""`tick`"" , 0123456789
-, ""\" ++ [233]%N ++ runes_of_ascii """  , ""1"", ""packet"" , 255
-, ""{,}"" ]:	crc ,
-0123456789  :	rootA [ ""\n"" ] :
-    // packet A { u8 x, }
-    charz , [ ""packet"", 10 ]
-:T , }
-, }//
-, // packet A { u8 x, }
-repeat
-zchar[ 007  ]matchKey `crlf
-line` ,
-    @rightPad // `tick` ""quote"" 'q'
-(
-    '0' )
-    // `tick` ""quote"" 'q'
-    repeat char[ 00	]
-pack`{ , }` , // " ++ [27880; 37322]%N ++ runes_of_ascii "
-i8i8
-, f32a
-    { u128
-    packetx , MetaDataX msg_type ,
-char[ 65535] falsey `" ++ [28040; 24687; 31867; 22411]%N ++ runes_of_ascii "`
-, }
-    , } packet uint8x { uint32 msg_type`u8 x,` , char[ 65535 ] // c
-o // trailing space 
-`u8 x,` , @rightPad
-( '\x00' )
-int @lengthOf( int )`crlf
-line` ,}packet Logon{ char[] string_ ,
-    string repeatCount// trailing space 
-@lengthOf( _x
-)
-    // packet A { u8 x, }
-    ,  @calculatedFrom( ""\" ++ [233]%N ++ runes_of_ascii """ )@lengthOf( trueish) @tag(
-//
-// `tick` ""quote"" 'q'
-007 ) i8
-    a1
-@lengthOf(
-BodyLength
-) `it's` ,	@rightPad ( ' ') @calculatedFrom(
-    ""{,}"" // c
-) @lengthOf(
-    // `tick` ""quote"" 'q'
-    zchar
-// c
-//	t
-) repeat
-    _x {
-    len
-, repeat	uint16
-    /// triple
-    trueish `say ""hi""` , u16 roots `two words` ,},} // `tick` ""quote"" 'q'")).
-Eval vm_compute in ("<<<M1293>>>" ++ check (runes_of_ascii "  root //x
-packet Logon {
-char[	7 ]calculatedFrom @calculatedFrom(	""// no comment""	) `two words`, uint16
-MetaDataX
-`u8 x,`
-    , string a1 @lengthOf( Logon ) // " ++ [27880; 37322]%N ++ runes_of_ascii "
-,
-    @tag( 0 ) // " ++ [128512]%N ++ runes_of_ascii " emoji
-@lengthOf( u8x) @calculatedFrom(
-    ""it's"" ) string
-zchar `doc` , @lengthOf(x_y_z)// trailing space 
-trueish
-// @lengthOf(
-// `tick` ""quote"" 'q'
-{ Z9_ { match
-float
-as/// triple
-lengthOf{00: _x, } ,repeat x_y_z {u8x // " ++ [128512]%N ++ runes_of_ascii " emoji
-uint8x ,	}
-,char[007
-] x_y_z , } , Z9_
-`" ++ [28040; 24687; 31867; 22411]%N ++ runes_of_ascii "` ,
-}
-,
-f32a {
-repeat	zchar[0123456789 ]A, repeat i64
-stringy , leftPad `crlf
-line` ,
-    },
-}packet u128//x
-{  match _x as MetaDataX{ [ ""x y"" , 42  ] : A , }
-, @lengthOf( charz) charz { match x_y_z as // " ++ [27880; 37322]%N ++ runes_of_ascii "
-f32a { [ 007
-, 10
-    ,
-    42
-    , """ ++ [233]%N ++ runes_of_ascii "t" ++ [233]%N ++ runes_of_ascii """ , 0123456789 ] :x_y_z ,// @lengthOf(
-7: u128 , ""// no comment""
-: repeatCount  ,
-    ""a\\"" : int	,""x y"" :u128 } , },i16 chars
-// @lengthOf(
-// packet A { u8 x, }
-@lengthOf( zchar)
-    //	t
-    `u8 x,` , }
-    packet u
-// " ++ [27880; 37322]%N ++ runes_of_ascii "
-// @lengthOf(
-{ repeat u options1 , /// triple
-@calculatedFrom( ""CRC32"" )float32 u128@lengthOf( //x
-u8x )
-`{ , }`,
-@leftPad ('\x00'
-)
-    i8 crc`say ""hi""`
-, } packet
-calculatedFrom {
-}
-packet pack {
-zchar[ 65535 ] calculatedFrom , len { stringy @lengthOf(
-body
-)	, }, @lengthOf( x_y_z// " ++ [128512]%N ++ runes_of_ascii " emoji
-) uint8x
-@lengthOf( tag ) , @calculatedFrom(
-""x y"") zchar[ 65535 ]	tag	@calculatedFrom(
-    ""a\\"") `" ++ [28040; 24687; 31867; 22411]%N ++ runes_of_ascii "` ,
-i64
-uint8x
-    ,  @lengthOf(
-    int ) u8 Pad@lengthOf(  o
-    )  `{ , }`
-    ,  }
-")).
-Eval vm_compute in ("<<<M823>>>" ++ check (runes_of_ascii "options
-    {f32a
-    =
-'0' ; x_y_z
-    =""\" ++ [233]%N ++ runes_of_ascii """ ;int	= ""1""	;  Z9_ = int16
-; calculatedFrom =
-true ;
-}
-MetaData
-trueish{ x_y_z trueish `// not a comment`
-, } packet zchar {@lengthOf(
-As )
-repeat
-options1 { char[]
-    //	t
-    o @calculatedFrom( ""abc"" )
-    , repeat pack /// triple
-, }	, @calculatedFrom( ""a\""b"" ) Foo rootA
-    ,match charz
-as falsey { ""x y""
-:x_y_z, 00 :	BodyLength ,  ""x y"" : x_y_z
-, // @lengthOf(
-}, Foo { repeat As{ repeat u A
-    /// triple
-    ,	repeat
-Logon { uint8x @calculatedFrom(
-""\n"" ) `{ , }` , i16 float ,},
-f64 crc
-`tab	here`
-, repeat char[] As  ``
-, } , calculatedFrom
-{ match body as
-    // a // b
-    a1{
-[""{,}"" , // trailing space 
-""\n"" , """" // c
-, ""1"" , """ ++ [128512]%N ++ runes_of_ascii """
-    ] : BodyLength , ""a\\"" :	chars ,65535
-: o// " ++ [27880; 37322]%N ++ runes_of_ascii "
-[ ""\n"" ] : options1
-    ""CRC32""	: BodyLength,},
-repeat o {
-    string
-    rootA// c
-, } ,
-repeat  zchar[
-65535 ] matchKey `" ++ [28040; 24687; 31867; 22411]%N ++ runes_of_ascii "`,
-    }, char[]
-    rootA `// not a comment` ,repeat
-    T	Logon
-`" ++ [28040; 24687; 31867; 22411]%N ++ runes_of_ascii "` , },
-    @leftPad ( )@tag( 00
-// " ++ [27880; 37322]%N ++ runes_of_ascii "
-// " ++ [27880; 37322]%N ++ runes_of_ascii "
-)@lengthOf(
-Pad
-    // packet A { u8 x, }
-    )  match A as
-a1{
-    //
-    65535 :stringy	[ ""a\""b"" // " ++ [128512]%N ++ runes_of_ascii " emoji
-,
-// a // b
-// packet A { u8 x, }
-""a\\"" ] :
-/// triple
-// trailing space 
-As ,
-// " ++ [27880; 37322]%N ++ runes_of_ascii "
-//
-""// no comment""
-: repeatCount
-    , """": body[""" ++ [28040; 24687]%N ++ runes_of_ascii """
-    , """ ++ [233]%N ++ runes_of_ascii "t" ++ [233]%N ++ runes_of_ascii """]
-    // @lengthOf(
-    :
-options1  , }, } // trailing space ")).
-Eval vm_compute in ("<<<M4337>>>" ++ check (runes_of_ascii "options {
-    T = ""it's"";// trailing space 
-    Z9_ = ""\" ++ [233]%N ++ runes_of_ascii """
-    int = '\x00'
-    u8x = ""`tick`""
-    crc = ""packet"";
-}
-
-root packet string_ {
-    match charz as u {
-        // " ++ [128512]%N ++ runes_of_ascii " emoji
-        0123456789 : zchar,
-        42 : rootA,
-        007 : crc,
-        """ ++ [28040; 24687]%N ++ runes_of_ascii """ : Foo,
-        [007, ""x y""] : int,
-    },
-    @tag(7)
-    repeat metadata,
-    string len @lengthOf(o) `crlf
-        line`,
-    repeat int32 falsey `
-        `,
-    @leftPad()
-    x @calculatedFrom(""// no comment"") `// not a comment`,
-    uint16 rootA,
-    @lengthOf(a1)
-    char calculatedFrom,
-    @tag(3)
-    zchar[65535] body,
-}
-
-packet Logon {
-    @leftPad()
-    @tag(7)
-    char u128 `say ""hi""`,
-    @tag(10)
-    char[42] roots,
-}
-
-root packet i64_ {
-    repeat _x {
-        repeat MetaDataX o,
-    },
-    u128 {
-        asx {
-            u8 a1,
-            repeat As,// a // b
-        },
-    },
-    int16 Foo,
-    u64 asx `
-        `,
-    u8x @lengthOf(crc),
-    @calculatedFrom(""CRC32"")
-    @lengthOf(body)
-    @tag(7)
-    falsey body `{ , }`,
-    MetaDataX {
-        trueish MetaDataX `tab	here`,
-        char[3] i8i8 @calculatedFrom(""" ++ [128512]%N ++ runes_of_ascii """) `" ++ [233]%N ++ runes_of_ascii "`,
-    },
-}
-
-options {
-    _x = false
-    _x = char[0123456789]
-    repeatCount = ' '
-    _x = ""packet"";
-}")).
-Eval vm_compute in ("<<<M232>>>" ++ check (runes_of_ascii "packet falsey { int64
-BodyLength , @tag( 4294967296) // packet A { u8 x, }
-@leftPad (
-    )
-match _x as Foo
-//	t
-// packet A { u8 x, }
-{ ""\n"": asx
-// `tick` ""quote"" 'q'
-// `tick` ""quote"" 'q'
-[ ""{,}""
-,	4294967296, """ ++ [128512]%N ++ runes_of_ascii """//	t
-, """ ++ [28040; 24687]%N ++ runes_of_ascii """,
-""packet"", ""packet""
-    // " ++ [27880; 37322]%N ++ runes_of_ascii "
-    , ""x y"" ,
-// trailing space 
-// " ++ [128512]%N ++ runes_of_ascii " emoji
-7 ]	: x_y_z	, } , // `tick` ""quote"" 'q'
-A len`// not a comment`
-    ,
-    //
-    repeat char[]
-i64_ `crlf
-line` ,
-// trailing space 
-// trailing space 
-repeat char[] u `line1
-line2`	, tag {string metadata ,
-    } ,
-// " ++ [27880; 37322]%N ++ runes_of_ascii "
-// " ++ [128512]%N ++ runes_of_ascii " emoji
-char[3
-    ] falsey @lengthOf(
-    leftPad ) `crlf
-line`
-,  } root	packet
-MetaDataX {@lengthOf( //
-u8x )
-    match f32a as Header {[ ""a\""b""
-//x
-// `tick` ""quote"" 'q'
-,255]:  u8x , ""packet""
-:
-uint8x
-    ,""1""
-:
-_x , },
-    Packet `doc` , zchar[
-    3 // " ++ [128512]%N ++ runes_of_ascii " emoji
-] u128 @lengthOf( asx  ) ,
-    }  MetaData x/// triple
-{
-// `tick` ""quote"" 'q'
-// `tick` ""quote"" 'q'
-As  roots , char[
-10	] crc
-// " ++ [128512]%N ++ runes_of_ascii " emoji
-/// triple
-`{ , }` ,
-    BodyLength
-asx  `u8 x,` ,matchKey i8i8 , falsey pack `" ++ [233]%N ++ runes_of_ascii "`,leftPad metadata ,
-    }
-options { pack	= 0 tag
-= f32 i64_ =""abc""	;
-// " ++ [128512]%N ++ runes_of_ascii " emoji
-// " ++ [128512]%N ++ runes_of_ascii " emoji
-f32a=
-    true ; } packet Foo { }
-")).
-Eval vm_compute in ("<<<M4442>>>" ++ check (runes_of_ascii "packet Packet {
-    MetaDataX {
-        // " ++ [128512]%N ++ runes_of_ascii " emoji
-        // trailing space 
-        zchar[255] crc @calculatedFrom(""`tick`"") `doc`,// c
-    },
-    u32 As `
-        `,
-    @lengthOf(chars)
-    f64 leftPad `// not a comment`,
-    repeat char[3] len `doc`,
-    match u8x as chars {
-        4294967296 : f32a,
-        [255, 4294967296] : string_,
-        0 : chars,
-        // packet A { u8 x, }
-        ""a\""b"" : options1,
-        7 : falsey,
-    },
-    @lengthOf(len)
-    repeat char[10] Header `crlf
-        line`,// " ++ [27880; 37322]%N ++ runes_of_ascii "
-    rootA asx `two words`,
-}
-
-packet Packet {
-    @tag(00)
-    u16 asx,
-    @calculatedFrom(""a\""b"")
-    charz @lengthOf(a1),
-    @lengthOf(asx)
-    repeat string falsey,
-    u32 options1 @lengthOf(packetx) `it's`,
-}
-
-packet metadata {
-    int16 i8i8,
-    i32 tag `line1
-        line2`,
-    @calculatedFrom(""a\\"")
-    @lengthOf(repeatCount)
-    MetaDataX {
-        repeat x_y_z,
-    },
-    lengthOf tag `" ++ [233]%N ++ runes_of_ascii "`,
-}
-
-MetaData Foo {
-    body chars,
-    char[] asx `// not a comment`,
-    char u8x,
-    x trueish `crlf
-        line`,
-    char[] options1 `u8 x,`,
-}")).
-Eval vm_compute in ("<<<M753>>>" ++ check (runes_of_ascii "MetaData
-u8x {
-    string Packet, leftPad _x `doc` ,
-}options
-{
-//x
-/// triple
-Header = //	t
-""1""
-/// triple
-//	t
-x = '\x00' falsey= int64
-f32a =char[ 007
-    ] ;
-Foo ='0'
-    // @lengthOf(
-    ;
-    /// triple
-    }
-options {  leftPad = false
-    // c
-    Z9_=""a	b""
-    asx = '0' }packet
-    int { repeat stringy
-falsey , @tag( // trailing space 
-0 )//	t
-repeat pack
-    ,@tag(65535 )match
-// a // b
-// `tick` ""quote"" 'q'
-Z9_ as lengthOf {
-007 : MetaDataX ,
-[ ""CRC32""
-    ,""" ++ [233]%N ++ runes_of_ascii "t" ++ [233]%N ++ runes_of_ascii """	,	""packet""
-, ""\n""
-//x
-//x
-,""1"" // a // b
-]: options1 ,[ ""CRC32"" , ""`tick`"" ,""\n"" ] :
-int , 0123456789 : uint8x [3 ,  255 ]: lengthOf
-,
-    } , @leftPad (
-    '\x00')
-// packet A { u8 x, }
-// trailing space 
-repeat chars ``
-    // " ++ [128512]%N ++ runes_of_ascii " emoji
-    , @calculatedFrom(""x y""
-    )@tag(
-    /// triple
-    10 ) @tag(	0123456789 ) _x rootA`a\`,  @lengthOf( stringy //
-)int @calculatedFrom(
-""{,}""	) , repeat u64
-stringy , @lengthOf( rootA) match
-f32a as len{[ 0]: charz , 42 : asx ""it's"" : body ""{,}""	:// " ++ [27880; 37322]%N ++ runes_of_ascii "
-Logon
-    ""\" ++ [233]%N ++ runes_of_ascii """ : BodyLength,
-}	,
-}
-")).
-Eval vm_compute in ("<<<M1317>>>" ++ check (runes_of_ascii "MetaData  u{ metadata x_y_z	, i8i8
-    len`it's`
-    , zchar[ // " ++ [27880; 37322]%N ++ runes_of_ascii "
-42	]
-options1 `{ , }` ,
-} packet u {
-@calculatedFrom(""abc""// a // b
-)
-// c
-// " ++ [27880; 37322]%N ++ runes_of_ascii "
-char[ 0123456789 ] string_ @lengthOf(
-Logon) `a\`	, string string_
-@lengthOf( // packet A { u8 x, }
-float )	, char[]// c
-crc
-`line1
-line2` , @lengthOf(
-/// triple
-// `tick` ""quote"" 'q'
-metadata
-    )  u128 {
-    char[]  T ,}, f64  As
-@calculatedFrom(// a // b
-""// no comment""
-)// " ++ [27880; 37322]%N ++ runes_of_ascii "
-,  repeat Z9_
-    chars`u8 x,` ,  @calculatedFrom(
-""packet"" )repeat
-    // @lengthOf(
-    a1  tag , } packet A
-    {	@tag(7
-    )@rightPad
-(
-) @tag( 0123456789 ) repeat
-    crc { repeatCount As
-// @lengthOf(
-//	t
-,}
-, match pack
-    as u {
-""packet"" :Pad  , ""1"":u8x 007
-    : Packet [ ""packet"", """ ++ [28040; 24687]%N ++ runes_of_ascii """ ] // " ++ [27880; 37322]%N ++ runes_of_ascii "
-: BodyLength
-""1"" :asx ,
-} , match i64_
-as Header{ 4294967296: _x	007 :packetx
-, [007 ]
-:
-A
-    , //	t
-} ,uint8 BodyLength ,@lengthOf(
-// `tick` ""quote"" 'q'
-// packet A { u8 x, }
-i64_ //	t
-)
-    u8
-falsey //	t
-, }
-")).
-Eval vm_compute in ("<<<M287>>>" ++ check (runes_of_ascii "
-root packet	Foo {
-Packet
-{
-u32 chars `{ , }`
-// a // b
-// " ++ [128512]%N ++ runes_of_ascii " emoji
-, zchar[ // " ++ [27880; 37322]%N ++ runes_of_ascii "
-255 ] Foo
-    , } , f32a @lengthOf( MetaDataX ) `doc` , As`say ""hi""`
-,  char[] crc @calculatedFrom( """ ++ [28040; 24687]%N ++ runes_of_ascii """
-)`say ""hi""` ,	int32 T//x
-`// not a comment` , @lengthOf( x )
-    //
-    pack
-{  match
-i8i8 as trueish
-    { ""x y"" : BodyLength, [
-// `tick` ""quote"" 'q'
-// packet A { u8 x, }
-""\n""
-    ,007,
-    ""// no comment"" ,
-//x
-// " ++ [128512]%N ++ runes_of_ascii " emoji
-42
-,
-""1"" , 65535// " ++ [128512]%N ++ runes_of_ascii " emoji
-,10 ] :
-    a1 ,[ ""{,}""
-]
-: metadata
-, ""a	b"" : As , }	,
-} ,
-match f32a	as
-    A
-    {""abc"": rootA
-    4294967296 : /// triple
-Z9_
-    // c
-    , [
-007 , ""a\""b""	, 00
-    , 42 ,
-1	,0123456789 ,""x y""
-] : Foo , }, char[ 7 ] i64_
-    `it's` , @lengthOf( pack ) repeat As , } MetaData
-charz	{ u64 asx, } packet x { }MetaData MetaDataX{A a1
-    // " ++ [128512]%N ++ runes_of_ascii " emoji
-    , char[]	x`a\` ,uint16 leftPad , }options
-{
-a1 =
-    42
-; BodyLength	= true
-;
-x_y_z =int16 } 	 ")).
-Eval vm_compute in ("<<<M1147>>>" ++ check (runes_of_ascii "
-root packet options1
-    { uint64	x ,	@lengthOf( i8i8
-    ) repeat
-char[ 0] len, crc `u8 x,`, As
-@calculatedFrom(""a	b""
-/// triple
-// @lengthOf(
-), @rightPad () @calculatedFrom( ""1""//x
-) string charz @calculatedFrom(
-""" ++ [233]%N ++ runes_of_ascii "t" ++ [233]%N ++ runes_of_ascii """	)`two words` , @tag( 00 )f32a
-//x
-//	t
-{ char[] trueish@lengthOf( //	t
-MetaDataX ) `// not a comment`
-,repeat	int16 float
-,
-body `u8 x,` , } //x
-, @calculatedFrom( // a // b
-""x y""  )
-//x
-//
-match Header as falsey { 7  :f32a , } ,  @tag( 00 )	match zchar
-as
-    Logon {
-[7
-, 7 ,
-    ""`tick`"",
-""\" ++ [233]%N ++ runes_of_ascii """ , 255] : A
-, [ 1 ]  :Z9_ [ ""1"" , 1 ,
-    ""`tick`"" ,""a	b""
-,
-//	t
-// a // b
-""\" ++ [233]%N ++ runes_of_ascii """ , """ ++ [28040; 24687]%N ++ runes_of_ascii """ ]	:
-Pad [ ""1"" // " ++ [128512]%N ++ runes_of_ascii " emoji
-, """" ,
-1	,
-00  ,""" ++ [128512]%N ++ runes_of_ascii """ , ""1"" , 1 , ""{,}"" ]
-: Z9_ ,10:
-A,
-    """ ++ [233]%N ++ runes_of_ascii "t" ++ [233]%N ++ runes_of_ascii """
-    : u8x
-    // " ++ [128512]%N ++ runes_of_ascii " emoji
-    , } , repeat int64 metadata ,
-    @rightPad (
-'0' )match tag as BodyLength
-    {""CRC32"" : asx , 10:
-    metadata , }
-    ,}")).
-Eval vm_compute in ("<<<M918>>>" ++ check (runes_of_ascii "  packet
-// `tick` ""quote"" 'q'
-//x
-uint8x{zchar[
-    007
-] Header @calculatedFrom( ""a	b"")
-,	}packet i64_{ @lengthOf(
-crc ) /// triple
-string metadata`
-`//	t
-, // trailing space 
-uint8x // " ++ [128512]%N ++ runes_of_ascii " emoji
-{ repeat
-u16
-string_ ,} , // `tick` ""quote"" 'q'
-packetx
-{ zchar[
-    0123456789]calculatedFrom
-@calculatedFrom(
-""" ++ [28040; 24687]%N ++ runes_of_ascii """ ) `crlf
-line`	, tag { zchar[  007 ] tag @calculatedFrom(""1"" )
-, string u ,	repeat
-A
-T
-,
-roots
-@lengthOf( Logon
-    ) ,
-    // `tick` ""quote"" 'q'
-    } , u8x `` , int64 metadata `tab	here` , }
-,
-}  packet rootA{
-@lengthOf( string_) Header A`doc` ,
-match stringy as x {// c
-0123456789: metadata,0 : rootA
-,
-42
-:
-A
-, [ 00 ,""abc"" ]
-:
-T	4294967296 : a1 , // @lengthOf(
-},
-@rightPad
-    (	'0' ) @tag(4294967296 )
-    @tag( 00) char[] Foo @calculatedFrom( ""1"" ) `crlf
-line`, }")).
-Eval vm_compute in ("<<<M1046>>>" ++ check (runes_of_ascii "// c
-packet
-i8i8{ } packet string_
-{  @rightPad ( '\x00'//x
-)
-    int Packet , // a // b
-@tag( 255 )
-matchKey , chars@calculatedFrom( ""packet"")
-`
-`	,  _x @lengthOf(u
-) , @tag(// c
-255 )asx Foo, string
-    roots ,	repeat
-    falsey {	matchKey { match Pad as
-i8i8 //x
-{ [ 00 , 7 ] : u , 1 : BodyLength , // a // b
-""// no comment""
-:	metadata ,
-""""
-// @lengthOf(
-//
-: BodyLength
-    /// triple
-    , } , }
-, A,
-repeat char falsey , } , // packet A { u8 x, }
-_x u `it's` ,
-@leftPad  (	'\x00')
-    @calculatedFrom(
-""\n""
-    )	match x_y_z as metadata { ""CRC32""
-: packetx // packet A { u8 x, }
-, ""packet""  :
-metadata 1
-    : string_// c
-, [ 0 , // " ++ [128512]%N ++ runes_of_ascii " emoji
-10 ]
-: // packet A { u8 x, }
-falsey // " ++ [27880; 37322]%N ++ runes_of_ascii "
-,} , char[] chars @lengthOf(zchar /// triple
-)`say ""hi""`	, } 	 ")).
-Eval vm_compute in ("<<<M1204>>>" ++ check (runes_of_ascii "packet
-float {
-match
-asx as len {255
-:metadata
-},char[ 4294967296] x  @lengthOf( lengthOf ),matchKey int
-,} packet  falsey { @tag( 0123456789	) match
-    u128 // a // b
-as
-stringy  {
-    // " ++ [128512]%N ++ runes_of_ascii " emoji
-    0123456789 :
-u128 // packet A { u8 x, }
-[
-3
-,
-    ""CRC32"" ,	7
-// packet A { u8 x, }
-// @lengthOf(
-, 10
-    , 0 ] :o	, 1 /// triple
-:charz // " ++ [128512]%N ++ runes_of_ascii " emoji
-, 0123456789 :
-u ,255 :
-pack
-, } ,
-    }  packet T
-{
-    // " ++ [27880; 37322]%N ++ runes_of_ascii "
-    @lengthOf(
-    /// triple
-    Z9_ ) @rightPad (  '0' ) @calculatedFrom(
-    ""// no comment"" // `tick` ""quote"" 'q'
-)zchar[
-007
-    ] leftPad ,@calculatedFrom(
-""1"" )char[]As
-`two words` ,
-    @leftPad ( '0' ) repeat char[
-    0123456789
-    ]x `// not a comment`, char[ 1
-// " ++ [27880; 37322]%N ++ runes_of_ascii "
-//x
-]_x// " ++ [128512]%N ++ runes_of_ascii " emoji
-, }")).
-Eval vm_compute in ("<<<M1239>>>" ++ check (runes_of_ascii "packet Header{ @rightPad
-    (
-    '0' )
-char[] x_y_z, Header {	repeat zchar[ 00 ] leftPad ,
-    repeat
-f64 // a // b
-float `a\`  , match o	as pack{ ""1"":
-    asx ,65535
-: x// `tick` ""quote"" 'q'
-, 65535// @lengthOf(
-: i8i8
-, [//
-""" ++ [28040; 24687]%N ++ runes_of_ascii """]: matchKey } ,
-    repeat A , } ,
-    char[ 3]trueish, @calculatedFrom( """ ++ [128512]%N ++ runes_of_ascii """  )
-    f32a , } packet uint8x
-{
-//
-//x
-chars@lengthOf(  Logon
-) , @leftPad
-    (' ' )repeat zchar[
-1 ]	_x `// not a comment` ,	char[]
-body``
-,uint32 leftPad `line1
-line2`,
-repeat x_y_z { u8x msg_type // `tick` ""quote"" 'q'
-,
-} , @tag( 0 ) int16 i8i8 `tab	here`
-, repeat Pad `doc` ,
-repeat
-// packet A { u8 x, }
-//
-u ,
-    u8x
-@calculatedFrom(  ""x y"" )
-`two words` , }
-")).
-Eval vm_compute in ("<<<M4320>>>" ++ check (runes_of_ascii "root packet stringy {
-    u8x @lengthOf(A),
-    match f32a as options1 {
-        [0123456789, ""a\""b""] : trueish,
-        [
-            3, 65535, 255, 65535, ""a\\"",
-            """ ++ [233]%N ++ runes_of_ascii "t" ++ [233]%N ++ runes_of_ascii """, ""\" ++ [233]%N ++ runes_of_ascii """
-        ] : body,
-    },
-    @calculatedFrom(""" ++ [128512]%N ++ runes_of_ascii """)
-    repeat uint16 int,
-    repeat tag,
-    @leftPad()
-    match int as u8x {
-        [65535, """ ++ [233]%N ++ runes_of_ascii "t" ++ [233]%N ++ runes_of_ascii """] : metadata,
-    },
-    @rightPad()
-    repeat zchar[7] Logon `crlf
-        line`,
-    As {
-        int64 roots,
-    },// packet A { u8 x, }
-    @tag(255)
-    int64 charz @calculatedFrom(""a	b""),
-    BodyLength lengthOf,
-    float64 As,
-}
-
-packet Foo {
-    char[4294967296] float `u8 x,`,
-}
-
-packet _x {
-}")).
-Eval vm_compute in ("<<<M1381>>>" ++ check (runes_of_ascii "packet metadata {//	t
-leftPad  { u64 stringy , }
-,
-} packet
-matchKey
-{  repeat u64 x_y_z, }MetaData
-f32a{
-} root packet  As  {
-@lengthOf(	Logon  ) float64
-A , @leftPad  (// " ++ [27880; 37322]%N ++ runes_of_ascii "
-'0' )u32
-    i64_ /// triple
-`// not a comment`/// triple
-, repeat i8
-    chars ,@lengthOf( x_y_z
-)	Foo x
-, stringy , chars @calculatedFrom( ""CRC32"" ) ,
-    @tag(
-0 ) int64 pack `
-` ,
-@rightPad ( )
-@calculatedFrom(
-""abc"" )
-@tag(// packet A { u8 x, }
-0 ) char[	0 ] msg_type // a // b
-,// " ++ [27880; 37322]%N ++ runes_of_ascii "
-tag {
-    char[	007 ]	zchar@lengthOf(
-    chars) , As@lengthOf(	charz )
-    `doc` , body `u8 x,`	,
-    } ,Foo
-    `two words`
-    ,
-}
-")).
-Eval vm_compute in ("<<<M1197>>>" ++ check (runes_of_ascii "options { u8x
-    = // @lengthOf(
-""it's"" x_y_z = //
-42 o
-    = true ;MetaDataX
-='0' ;	}
-MetaData	calculatedFrom { i64 trueish , // " ++ [27880; 37322]%N ++ runes_of_ascii "
-u16 stringy
-    `two words`,u8x
-    repeatCount,int8 matchKey
-    ,} packet MetaDataX {@calculatedFrom( ""\" ++ [233]%N ++ runes_of_ascii """ ) uint8x
-//x
-/// triple
-@lengthOf(
-    /// triple
-    uint8x) ,
-    //	t
-    repeat zchar[ 007 ]	Foo`" ++ [233]%N ++ runes_of_ascii "` , @lengthOf(
-/// triple
-// a // b
-metadata  ) @tag(1 )
-match metadata as BodyLength { 00 :
-tag ,
-""a	b"" :	Packet
-, [ ""abc""]:	pack },
-//	t
-// " ++ [27880; 37322]%N ++ runes_of_ascii "
-}  root packet
-packetx
-    { @leftPad( '\x00'
-)f32a
-@lengthOf( options1 ) , }
-packet MetaDataX
-{ }
-")).
-Eval vm_compute in ("<<<M3858>>>" ++ check (runes_of_ascii "root packet options1 {
-    float @calculatedFrom(""a	b""),
-    @leftPad()
-    match lengthOf as f32a {
-        ""1"" : f32a,
-        ""{,}"" : falsey,
-    },
-}
-
-packet T {
-    @tag(7)
-    @lengthOf(f32a)
-    @rightPad()
-    char[] msg_type @calculatedFrom(""\" ++ [233]%N ++ runes_of_ascii """) `" ++ [28040; 24687; 31867; 22411]%N ++ runes_of_ascii "`,
-    options1 u128 `// not a comment`,
-    @rightPad(' ')
-    char[1] metadata @calculatedFrom(""" ++ [128512]%N ++ runes_of_ascii """) `doc`,
-}
-
-packet u8x {
-    roots @lengthOf(f32a),
-    @calculatedFrom(""a\""b"")
-    @tag(00)
-    @leftPad('\x00')
-    MetaDataX {
-        int @calculatedFrom(""`tick`"") `
-                `,
-    },
-}")).
-Eval vm_compute in ("<<<M4000>>>" ++ check (runes_of_ascii "options {
-    int = ""`tick`"";
-    Foo = ' ';
-    Foo = ""x y"";
-    x_y_z = ""x y"";
+    char[] A `// not a comment`,
 }
 
 packet uint8x {
-    @lengthOf(int)
-    @tag(0)
-    Pad,
-    u8 x,
-    @lengthOf(Z9_)
-    f32 BodyLength `crlf
-    line`,
-    repeat char[255] f32a,
-    repeat msg_type lengthOf,
-    @leftPad('\x00')
-    repeat int32 asx,
-    repeat string f32a,// `tick` ""quote"" 'q'
-}
-
-MetaData packetx {
-    int64 asx,
-    Foo len `// not a comment`,
-    i32 MetaDataX `" ++ [233]%N ++ runes_of_ascii "`,
-    Foo Header `line1
-    line2`,
-    zchar[0123456789] lengthOf,
-    float32 metadata,
-}")).
-Eval vm_compute in ("<<<M3676>>>" ++ check (runes_of_ascii "MetaData i64_ {
-    int rootA,
-    char[0] A `{ , }`,
-    u128 rootA `doc`,
-    zchar[42] i8i8 `it's`,
-    char[00] u,
-    zchar[0123456789] A `line1
-    line2`,
-}
-
-packet Z9_ {
-    @lengthOf(pack)
-    @calculatedFrom(""a\\"")
-    BodyLength @calculatedFrom(""\" ++ [233]%N ++ runes_of_ascii """),
-    @rightPad()
-    @tag(1)
-    @lengthOf(i8i8)
-    char[] trueish,
-    f32a @calculatedFrom(""" ++ [28040; 24687]%N ++ runes_of_ascii """) `u8 x,`,
-    @tag(65535)
-    string trueish,
-}
-
-packet BodyLength {
-    stringy @lengthOf(Z9_),
-    char[007] metadata @calculatedFrom("""") `" ++ [233]%N ++ runes_of_ascii "`,
-}")).
-Eval vm_compute in ("<<<M1052>>>" ++ check (runes_of_ascii "MetaData Logon {
-    }
-    packet trueish	{calculatedFrom@lengthOf(
-leftPad )
-    ,
-char[]chars @lengthOf(rootA) `u8 x,`
-,
-@calculatedFrom(""""
-// @lengthOf(
-// @lengthOf(
-)As @lengthOf( repeatCount) // " ++ [128512]%N ++ runes_of_ascii " emoji
-`two words`// c
-,
-asx
-`it's` // packet A { u8 x, }
-,// " ++ [27880; 37322]%N ++ runes_of_ascii "
-} packet
-MetaDataX	{repeat	u8  i8i8
-`" ++ [233]%N ++ runes_of_ascii "`
-, uint8 int @lengthOf( uint8x)  ,
-u16 T@lengthOf( body
-// packet A { u8 x, }
-/// triple
-) `" ++ [28040; 24687; 31867; 22411]%N ++ runes_of_ascii "` , zchar[ 3] trueish , @calculatedFrom( ""x y"" ) repeat zchar[ 00 ] zchar , }")).
-Eval vm_compute in ("<<<M3622>>>" ++ check (runes_of_ascii "
-options{ StringPrefixLenType
-= u8
-;ArrayPrefixLenType
-
-    =u32 ;  }	packet
-
-    Quote {u32
-
-Ref
-	,InNote74
-{
-u8 pad0
-
-    ,	} 
-, 
-}
-
-packet Ack	{
-
-    repeat
-string
-OrderId ,}
-packet	Logout
-{ zchar[ 7]venue
-
-,
-    char[
-
-    12 
-] Px,
-string 
-count
-,char[]
-    Tail	,char[]  Qty ,
-
-Quote
-	,
-
-}
-
-root
-packet  Trade
-{ 
-zchar[
-	2
-
-] 
-price ,
-u32 x	, 
-u32 lastPx @lengthOf( Body),
-match 
-x  as
-	Body 
-{
-148
-	:
-	Ack	,171	:Quote  ,15	:Logout , },
-}")).
-Eval vm_compute in ("<<<M64>>>" ++ check (runes_of_ascii "
-MetaData x_y_z // c
-{char As ,} packet packetx { asx @calculatedFrom( """ ++ [128512]%N ++ runes_of_ascii """
-) `a\`, MetaDataX // packet A { u8 x, }
-, @leftPad
-(
-    '0'
-)
-asx@lengthOf( f32a) `a\` , @lengthOf(	metadata )
-match	Packet as lengthOf { [ // `tick` ""quote"" 'q'
-""packet"", """ ++ [128512]%N ++ runes_of_ascii """] : // trailing space 
-Foo , 0
-    :
-    crc [
-10
-, ""CRC32"" ]
-:
-trueish
-//
-// " ++ [27880; 37322]%N ++ runes_of_ascii "
-,}	, } packet/// triple
-lengthOf { @lengthOf( msg_type )
-repeat zchar[7 ]  f32a `" ++ [233]%N ++ runes_of_ascii "`,
-int64 tag ,  }
-")).
-Eval vm_compute in ("<<<M1302>>>" ++ check (runes_of_ascii "packet packetx
-    {match _x
-as // a // b
-rootA {
-3 :  leftPad } // " ++ [27880; 37322]%N ++ runes_of_ascii "
-, u32 stringy// c
-, @rightPad // " ++ [128512]%N ++ runes_of_ascii " emoji
-(// trailing space 
-' '
-)
-    @lengthOf( A // " ++ [128512]%N ++ runes_of_ascii " emoji
-) string msg_type `u8 x,`, match string_  as body { [ 42 ,
-    // @lengthOf(
-    ""1""	,""packet"" , """ ++ [128512]%N ++ runes_of_ascii """ , ""packet"" ,
-0123456789 ]
-    //	t
-    :
-    calculatedFrom } , //	t
-u8 Packet , @lengthOf( // `tick` ""quote"" 'q'
-lengthOf )repeat u8x asx
-`doc` ,  }
-")).
-Eval vm_compute in ("<<<M584>>>" ++ check (runes_of_ascii "options { len
-=""x y""; } packet // @lengthOf(
-repeatCount { zchar[ // a // b
-7]
-f32a ,
-} packet
-    asx { len @calculatedFrom( ""a\\"" ) `line1
-line2`
-// @lengthOf(
-// " ++ [27880; 37322]%N ++ runes_of_ascii "
-, @lengthOf(T
-    ) u8x`a\` ,@tag(3 )
-    char Pad `
-` ,
-    char[
-    4294967296 //	t
-]
-    metadata
-    @calculatedFrom( ""CRC32"") ,	@lengthOf( Header ) u64
-    uint8x// `tick` ""quote"" 'q'
-@calculatedFrom(""x y""
-    ) , }
-// " ++ [128512]%N ++ runes_of_ascii " emoji
-")).
-Eval vm_compute in ("<<<M853>>>" ++ check (runes_of_ascii "
-root packet crc
-{	@rightPad
-    // `tick` ""quote"" 'q'
-    (
-// `tick` ""quote"" 'q'
-// c
-'\x00' )// a // b
-repeat i64 As ,
-// @lengthOf(
-// a // b
-}
-packet// c
-body // " ++ [128512]%N ++ runes_of_ascii " emoji
-{
-}
-packet  uint8x { options1 @calculatedFrom(""a	b"" ) ,
-} MetaData  Packet { }
-/// triple
-//
-MetaData
-    // a // b
-    falsey{	char[ 007 ]
-// trailing space 
-//x
-tag `it's` , As leftPad
-`line1
-line2`,
-    } 	 ")).
-Eval vm_compute in ("<<<M533>>>" ++ check (runes_of_ascii "
-packet repeatCount {uint64
-stringy, } options {
-crc
-    = '0' } //x
-packet int{ repeat
-a1 charz ,
-    }options { matchKey = """ ++ [28040; 24687]%N ++ runes_of_ascii """  ;
-    crc = """ ++ [28040; 24687]%N ++ runes_of_ascii """ ;roots= // `tick` ""quote"" 'q'
-'\x00'
-;
-// packet A { u8 x, }
-//x
-} packet i8i8{ @calculatedFrom( ""abc""
-) char[]_x `
-`
-,/// triple
-uint8 Packet// a // b
-`crlf
-line` , string_ `{ , }` // " ++ [27880; 37322]%N ++ runes_of_ascii "
-,
-/// triple
-// " ++ [128512]%N ++ runes_of_ascii " emoji
-}")).
-Eval vm_compute in ("<<<M542>>>" ++ check (runes_of_ascii "packet // a // b
-chars { @leftPad (  )
-char[ 42] asx
-,
-@tag( 007 ) matchKey
-    As
-,  @leftPad ( // a // b
-'\x00' // " ++ [128512]%N ++ runes_of_ascii " emoji
-) msg_type`u8 x,` ,
-    repeat  charz// packet A { u8 x, }
-{ int64 f32a ,Header { u32 MetaDataX ,
-char[
-3
-] repeatCount @calculatedFrom(""packet""
-)
-`tab	here`
-, repeat f64 Logon
-`
-`
-, }
-, }
-//
-// trailing space 
-, } //	t")).
-Eval vm_compute in ("<<<M4302>>>" ++ check (runes_of_ascii "packet  roots{
-    @tag(255 ) zchar[
-	00 
-] 
-lengthOf `" ++ [233]%N ++ runes_of_ascii "`
-,
-
-    zchar[	7
-// @lengthOf(
-
-  //
-      ]	u
-
-    `say ""hi""`  // " ++ [27880; 37322]%N ++ runes_of_ascii "
-,
-}  options{
-
-} options
-
-{ 
-calculatedFrom= 4294967296// " ++ [128512]%N ++ runes_of_ascii " emoji
-  i64_=
-
-'\x00';
-
-    i64_ = 
-""abc""
-	;
-
-}MetaData roots
-{ char[]
-BodyLength
-    `two words` , 
-i16
-    Header`// not a comment` ,}
-
-")).
-Eval vm_compute in ("<<<M1941>>>" ++ check (runes_of_ascii "MetaData
-    u { }  options {
-// c
-// @lengthOf(
-float = int8 ;rootA =false ; As =	int16 // `tick` ""quote"" 'q'
-repeatCount repeatCount
-    // trailing space 
-    =
-    int16
-; u8x =
-    //	t
-    '\x00' ; } options	{
-    repeatCount
-= 0
-u128
-    //
-    = false ; i64_
-// trailing space 
-// `tick` ""quote"" 'q'
-= '0' ; //	t
-}
-")).
-Eval vm_compute in ("<<<M1896>>>" ++ check (runes_of_ascii "MetaData
-    u { }  options {
-// c
-// @lengthOf(
-float = int8 int8 ;rootA =false ; As =	int16 // `tick` ""quote"" 'q'
-repeatCount
-    // trailing space 
-    =
-    int16
-; u8x =
-    //	t
-    '\x00' ; } options	{
-    repeatCount
-= 0
-u128
-    //
-    = false ; i64_
-// trailing space 
-// `tick` ""quote"" 'q'
-= '0' ; //	t
-}
-")).
-Eval vm_compute in ("<<<M1901>>>" ++ check (runes_of_ascii "MetaData
-    u { }  options {
-// c
-// @lengthOf(
-float = int8 ; ;rootA =false ; As =	int16 // `tick` ""quote"" 'q'
-repeatCount
-    // trailing space 
-    =
-    int16
-; u8x =
-    //	t
-    '\x00' ; } options	{
-    repeatCount
-= 0
-u128
-    //
-    = false ; i64_
-// trailing space 
-// `tick` ""quote"" 'q'
-= '0' ; //	t
-}
-")).
-Eval vm_compute in ("<<<M2013>>>" ++ check (runes_of_ascii "MetaData
-    u { }  options {
-// c
-// @lengthOf(
-float = int8 ;rootA =false ; As =	int16 // `tick` ""quote"" 'q'
-repeatCount
-    // trailing space 
-    =
-    int16
-; u8x =
-    //	t
-    '\x00' ; } options	{
-    repeatCount
-= 0
-false
-    //
-    = false ; i64_
-// trailing space 
-// `tick` ""quote"" 'q'
-= '0' ; //	t
-}
-")).
-Eval vm_compute in ("<<<M1957>>>" ++ check (runes_of_ascii "MetaData
-    u { }  options {
-// c
-// @lengthOf(
-float = int8 ;rootA =false ; As =	int16 // `tick` ""quote"" 'q'
-repeatCount
-    // trailing space 
-    =
-    int16
-u8x ; =
-    //	t
-    '\x00' ; } options	{
-    repeatCount
-= 0
-u128
-    //
-    = false ; i64_
-// trailing space 
-// `tick` ""quote"" 'q'
-= '0' ; //	t
-}
-")).
-Eval vm_compute in ("<<<M1910>>>" ++ check (runes_of_ascii "MetaData
-    u { }  options {
-// c
-// @lengthOf(
-float = int8 ;rootA false ; As =	int16 // `tick` ""quote"" 'q'
-repeatCount
-    // trailing space 
-    =
-    int16
-; u8x =
-    //	t
-    '\x00' ; } options	{
-    repeatCount
-= 0
-u128
-    //
-    = false ; i64_
-// trailing space 
-// `tick` ""quote"" 'q'
-= '0' ; //	t
-}
-")).
-Eval vm_compute in ("<<<M2010>>>" ++ check (runes_of_ascii "MetaData
-    u { }  options {
-// c
-// @lengthOf(
-float = int8 ;rootA =false ; As =	int16 // `tick` ""quote"" 'q'
-repeatCount
-    // trailing space 
-    =
-    int16
-; u8x =
-    //	t
-    '\x00' ; } options	{
-    repeatCount
-= 0
-
-    //
-    = false ; i64_
-// trailing space 
-// `tick` ""quote"" 'q'
-= '0' ; //	t
-}
-")).
-Eval vm_compute in ("<<<M707>>>" ++ check (runes_of_ascii "MetaData u { u128 tag `
-`
-, zchar[ 10 ] pack `say ""hi""`, string metadata`doc` , } packet
-    chars
-    {	match
-    crc as trueish {
-    // " ++ [27880; 37322]%N ++ runes_of_ascii "
-    10: roots [ """ ++ [28040; 24687]%N ++ runes_of_ascii """ ,
-    """" ,4294967296 , ""\n"" ,
-007 ,
-    ""a\""b"" , """"
-, // `tick` ""quote"" 'q'
-42  ]  : string_ ""{,}"" :	x_y_z,} ,
-i8i8
-int, asx
-    ,}
-//	t
-")).
-Eval vm_compute in ("<<<M4521>>>" ++ check (runes_of_ascii "
-packet
-	//	t
-	// trailing spa'ce 
-    _x {  
-  // packet A { u8 x, }
-// c
-
-char[ 
-3	]
-	u8x
-
-    @lengthOf(  u8x )
-	,	@calculatedFrom(
-
-    """ ++ [128512]%N ++ runes_of_ascii """ 	 // @lengthOf(
-)
-
-i16
-
-Foo
-    @lengthOf(
-	string_ ) 
-`doc`
-,  repeat
-
-i64 
-metadata
-
-,
-	@lengthOf(	string_  )i8 // c
-		u	`line1
-line2`
-
-,	}
-")).
-Eval vm_compute in ("<<<M4266>>>" ++ check (runes_of_ascii "packet
-calculatedFrom	{
-match Logon as
-    u128 { [  1
-	, ""// no comment""
-]
-:u8x
-	""`tick`""	: Header,""`tick`"" :BodyLength ""it's"" 
+    repeat o {
+        u64 string_ @calculatedFrom(""" ++ [233]%N ++ runes_of_ascii "t" ++ [233]%N ++ runes_of_ascii """),
+    },
+    repeat string_ `" ++ [28040; 24687; 31867; 22411]%N ++ runes_of_ascii "`,
+    repeat u {
+        packetx @lengthOf(len) `doc`,
+    },
+    @lengthOf(u8x)
+    float32 MetaDataX @calculatedFrom(""" ++ [233]%N ++ runes_of_ascii "t" ++ [233]%N ++ runes_of_ascii """),
+    uint8 MetaDataX `it's`,
+    @rightPad('\x00')
+    repeat crc {
+        x_y_z @lengthOf(As) `line1
+        line2`,
+        i32 repeatCount,
         // a // b
-
-  // packet A { u8 x, }
-    :  zchar } 	 // " ++ [27880; 37322]%N ++ runes_of_ascii "
-    	,	// `tick` ""quote"" 'q'
-    char metadata	@calculatedFrom(""a\\""
-
-    )
-
-, }
-")).
-Eval vm_compute in ("<<<M3309>>>" ++ check (runes_of_ascii "// top
-root // c0
-packet // c1a
-  // c1b
-matchKey // c2
-{
-    // c3
-zchar[ 3 // c5
-]
-    // c6
-pack @calculatedFrom( // c8
-""a	b"" // c9a
-  // c9b
-) // c10
-`doc` // c11
-, } options
-    // c14
-{ } // c16
-MetaData A { // c19a
-  // c19b
-int8 // c20
-msg_type ,
-    // c22
-} ")).
-Eval vm_compute in ("<<<M1660>>>" ++ check (runes_of_ascii "packet
-//	t
-// trailing spa@lengthOfce 
-_x {
-// packet A { u8 x, }
-// c
-char[
-3
-    ] u8x @lengthOf(
-u8x ) , @calculatedFrom(""" ++ [128512]%N ++ runes_of_ascii """ // @lengthOf(
-)
-i16	Foo
-@lengthOf(	string_
-    )`doc`	, repeat	i64 metadata , @lengthOf( string_
-) i8 // c
-u  `line1
-line2`	,
-}
-")).
-Eval vm_compute in ("<<<M562>>>" ++ check (runes_of_ascii "root packet a1
-{ repeat
-    /// triple
-    zchar[
-    42 ] x_y_z
-,@tag( 65535 )@tag(
-    // c
-    7
-    )// " ++ [128512]%N ++ runes_of_ascii " emoji
-@lengthOf( // c
-A	)	string
-//
-// " ++ [27880; 37322]%N ++ runes_of_ascii "
-calculatedFrom ,
-    string
-    uint8x
-    ,
-    } MetaData
-    // trailing space 
-    MetaDataX
-{
+        // @lengthOf(
+        repeat Pad {
+            repeat string_ `" ++ [233]%N ++ runes_of_ascii "`,
+            leftPad {
+                char[] float,
+            },
+        },
+    },
+    @calculatedFrom(""it's"")
+    zchar[42] A @lengthOf(matchKey),
+    roots @calculatedFrom(""CRC32"") `a\`,
 }")).
-Eval vm_compute in ("<<<M1505>>>" ++ check (runes_of_ascii "packet
-//	t
-// trailing space 
-_x {
-// packet A { u8 x, }
-// c
-uint16
-3
-    ] u8x @lengthOf(
-u8x ) , @calculatedFrom(""" ++ [128512]%N ++ runes_of_ascii """ // @lengthOf(
-)
-i16	Foo
-@lengthOf(	string_
-    )`doc`	, repeat	i64 metadata , @lengthOf( string_
-) i8 // c
-u  `line1
-line2`	,
+Eval vm_compute in ("<<<M4279>>>" ++ check (runes_of_ascii "// @lengthOf(
+MetaData Pad {
 }
-")).
-Eval vm_compute in ("<<<M1554>>>" ++ check (runes_of_ascii "packet
-//	t
-// trailing space 
-_x {
-// packet A { u8 x, }
-// c
-char[
-3
-    ] u8x @lengthOf(
-u8x ) , @calculatedFrom(""" ++ [128512]%N ++ runes_of_ascii """ // @lengthOf(
-i16
-)	Foo
-@lengthOf(	string_
-    )`doc`	, repeat	i64 metadata , @lengthOf( string_
-) i8 // c
-u  `line1
-line2`	,
+
+MetaData msg_type {
+    // packet A { u8 x, }
+    packetx i64_,
+    char[1] Foo `" ++ [233]%N ++ runes_of_ascii "`,
 }
-")).
-Eval vm_compute in ("<<<M1550>>>" ++ check (runes_of_ascii "packet
-//	t
-// trailing space 
-_x {
-// packet A { u8 x, }
-// c
-char[
-3
-    ] u8x @lengthOf(
-u8x ) , @calculatedFrom(as // @lengthOf(
-)
-i16	Foo
-@lengthOf(	string_
-    )`doc`	, repeat	i64 metadata , @lengthOf( string_
-) i8 // c
-u  `line1
-line2`	,
+
+MetaData o {
 }
-")).
-Eval vm_compute in ("<<<M1595>>>" ++ check (runes_of_ascii "packet
-//	t
-// trailing space 
-_x {
-// packet A { u8 x, }
-// c
-char[
-3
-    ] u8x @lengthOf(
-u8x ) , @calculatedFrom(""" ++ [128512]%N ++ runes_of_ascii """ // @lengthOf(
-)
-i16	Foo
-@lengthOf(	string_
-    )`doc`	, {	i64 metadata , @lengthOf( string_
-) i8 // c
-u  `line1
-line2`	,
+
+// `tick` ""quote"" 'q'
+options {
+    MetaDataX = u32;
+    // @lengthOf(
+    //x
+    trueish = '0'
+    options1 = 65535;
+    Pad = '0';
+    x_y_z = ""a\""b""
 }
-")).
-Eval vm_compute in ("<<<M1261>>>" ++ check (runes_of_ascii "options
-{  trueish  = f32
-;
-    i8i8 = false BodyLength  =
-// " ++ [27880; 37322]%N ++ runes_of_ascii "
+
+packet chars {
+    @calculatedFrom(""a\\"")
+    //	t
+    match charz as Foo {
+        [4294967296, ""CRC32"", 3, ""a\""b"", ""CRC32""] : i8i8,
+    },
+    @calculatedFrom(""" ++ [233]%N ++ runes_of_ascii "t" ++ [233]%N ++ runes_of_ascii """)
+    char[] chars @calculatedFrom(""// no comment""),
+    char[] x_y_z,
+    @lengthOf(trueish)
+    @lengthOf(packetx)
+    @lengthOf(packetx)
+    Logon @calculatedFrom(""it's""),
+    string _x,
+    uint32 packetx,
+    repeat MetaDataX `tab	here`,
+}")).
+Eval vm_compute in ("<<<M1370>>>" ++ check (runes_of_ascii "packet
+    //	t
+    As { @tag( 10 )@lengthOf(
+    chars ) zchar {
+//x
+// `tick` ""quote"" 'q'
+metadata { Header`it's`, match
+body
+as i64_ // trailing space 
+{ ""// no comment""
+    :
+    packetx ,} /// triple
+, match
+repeatCount	as asx{255
+    :
+    Foo ,	3 :	int , ""1"" :
+chars , }
+, uint32 repeatCount@lengthOf(
+    // c
+    BodyLength )
+    ``
+    , } ,roots , repeat	rootA `` ,
+char MetaDataX@lengthOf( crc
+) , } ,
+    // a // b
+    _x {
+    match As	as Foo// @lengthOf(
+{ 1 :
+    // " ++ [27880; 37322]%N ++ runes_of_ascii "
+    stringy
+//x
 //	t
-float64
-stringy =
-string;Z9_= '\x00' } MetaData falsey { pack
-rootA,
-char[ 7]
-x_y_z `" ++ [233]%N ++ runes_of_ascii "` , uint32
-    string_ ,
-float64 //	t
-lengthOf// trailing space 
-,
-int32	u , }
-")).
-Eval vm_compute in ("<<<M1641>>>" ++ check (runes_of_ascii "packet
-//	t
-// trailing space 
-_x {
-// packet A { u8 x, }
-// c
-char[
-3
-    ] u8x @lengthOf(
-u8x ) , @calculatedFrom(""" ++ [128512]%N ++ runes_of_ascii """ // @lengthOf(
-)
-i16	Foo
-@lengthOf(	string_
-    )`doc`	, repeat	i64 metadata , @lengthOf( string_
-) i8 // c
-u")).
-Eval vm_compute in ("<<<M3587>>>" ++ check (runes_of_ascii "// top
-packet // c0a
-  // c0b
-order_item
-    // c1
-{ u8 // c3a
-  // c3b
-a ,
-    // c5
+,}
+, }
+    ,
+    u8	Foo ,  @calculatedFrom( """")
+    BodyLength	, char[
+    007
+    ]
+Z9_@calculatedFrom(
+""CRC32"" ) , lengthOf , i32 //x
+f32a `{ , }` ,
+}")).
+Eval vm_compute in ("<<<M3669>>>" ++ check (runes_of_ascii "// top
+options // c0
+{ // c1a
+  // c1b
+LittleEndian // c2
+= true // c4a
+  // c4b
+; // c5
 } // c6a
   // c6b
-root
+packet
     // c7
-packet // c8a
+Sub { u8
+    // c10
+a // c11a
+  // c11b
+, @calculatedFrom(
+    // c13
+""CRC16"" // c14
+) // c15
+u64 SubSum
+    // c17
+, } // c19
+root // c20
+packet
+    // c21
+Frame // c22a
+  // c22b
+{
+    // c23
+u16 // c24
+MsgType
+    // c25
+, u16
+    // c27
+BodyLen // c28a
+  // c28b
+@lengthOf( Body ) // c31a
+  // c31b
+,
+    // c32
+Sub
+    // c33
+Body // c34
+, string // c36
+note , // c38
+@calculatedFrom( ""CRC16"" // c40a
+  // c40b
+) // c41
+u64
+    // c42
+Checksum ,
+    // c44
+u8
+    // c45
+tail , // c47
+}
+    // c48
+")).
+Eval vm_compute in ("<<<M4107>>>" ++ check (runes_of_ascii "//x
+packet _x {
+    repeat charz {
+        repeat asx,//x
+        string metadata,//x
+        uint64 a1 @calculatedFrom(""it's"") `a\`,
+    },
+    @rightPad()
+    msg_type len ``,
+    MetaDataX asx,
+    @rightPad('\x00')
+    zchar[3] int,
+}
+
+packet Packet {
+    @leftPad()
+    string_ {
+        repeat calculatedFrom `it's`,
+    },
+    @calculatedFrom(""a	b"")
+    @tag(00)
+    @rightPad(' ')
+    u64 stringy @calculatedFrom(""a	b""),
+    @leftPad('\x00')
+    options1 `" ++ [233]%N ++ runes_of_ascii "`,
+    @rightPad()
+    repeat char[007] Foo `line1
+    line2`,
+}
+
+options {
+    len = '\x00';
+    roots = ""{,}""
+    packetx = i64;
+}")).
+Eval vm_compute in ("<<<M3578>>>" ++ check (runes_of_ascii "// top
+packet // c0a
+  // c0b
+A // c1a
+  // c1b
+{ // c2
+u8 a // c4a
+  // c4b
+, // c5a
+  // c5b
+} packet
+    // c7
+B // c8a
   // c8b
-new_order // c9a
+{ // c9a
   // c9b
-{ order_item
+u16 // c10a
+  // c10b
+b
     // c11
 ,
     // c12
-u8 x // c14
-, } ")).
-Eval vm_compute in ("<<<M1196>>>" ++ check (runes_of_ascii "packet  lengthOf{
-@tag( 65535 )	match crc as
-    i8i8 {[65535 , 42 , ""it's"", ""x y"",
-    7,
+} // c13
+root // c14
+packet // c15a
+  // c15b
+P { // c17
+u8 // c18a
+  // c18b
+K1 , // c20a
+  // c20b
+u8 // c21
+K2 , // c23
+match K1
+    // c25
+as M1 // c27
+{ // c28a
+  // c28b
+1 // c29a
+  // c29b
+:
+    // c30
+A // c31a
+  // c31b
+, // c32a
+  // c32b
+} , match // c35
+K2 as
+    // c37
+M2
+    // c38
+{ 1 // c40a
+  // c40b
+:
+    // c41
+B , } // c44
+,
+    // c45
+}
+    // c46
+")).
+Eval vm_compute in ("<<<M614>>>" ++ check (runes_of_ascii "root packet
+packetx
+    {	string_  leftPad ,
+// " ++ [27880; 37322]%N ++ runes_of_ascii "
+//x
+} root
+    packet  o
+{x metadata `it's`, uint8
+metadata , i32
+    trueish, i64_ @calculatedFrom( ""`tick`"") ,// packet A { u8 x, }
+match matchKey  as
+repeatCount {[ //x
+""`tick`""
+]
+: Pad , 10
+    :
+    // `tick` ""quote"" 'q'
+    charz ,  7 : msg_type// c
+}
+, float64 body
+    @calculatedFrom( ""it's"") ,x_y_z @lengthOf(Header /// triple
+),body @calculatedFrom(
+    """ ++ [28040; 24687]%N ++ runes_of_ascii """
+    )`{ , }` ,
+} options{ } // " ++ [128512]%N ++ runes_of_ascii " emoji
+options{ Z9_/// triple
+=
+    true;Z9_ = false leftPad = //x
+' 'As =char[] ;	}")).
+Eval vm_compute in ("<<<M145>>>" ++ check (runes_of_ascii "root //	t
+packet
+BodyLength { zchar[ 10
+]
+u128
+    ,
+uint8 zchar ``
+    , repeat falsey ,float64 chars@calculatedFrom( """ ++ [128512]%N ++ runes_of_ascii """
+) , char[]matchKey, repeat //x
+uint16 matchKey ,
+@calculatedFrom( ""CRC32"" ) char[ 3 ] u `" ++ [28040; 24687; 31867; 22411]%N ++ runes_of_ascii "` , @leftPad ( '0'
+    //	t
+    ) u64  charz @calculatedFrom(""" ++ [128512]%N ++ runes_of_ascii """), }
+root packet chars //
+{} MetaData Z9_{ zchar[ 255 ] _x,int32 f32a , int8
+asx `` ,
+o
+packetx // `tick` ""quote"" 'q'
+, }
+    options
+// trailing space 
+// c
+{	A
+=
+4294967296
+//
+// packet A { u8 x, }
+;
+Foo = ""x y"" ;Foo =  ' ' } //	t")).
+Eval vm_compute in ("<<<M4458>>>" ++ check (runes_of_ascii "
+packet
+    lengthOf 
+{  f64
+    lengthOf
+
+@lengthOf(
+
+    a1 
+) `" ++ [28040; 24687; 31867; 22411]%N ++ runes_of_ascii "` , uint64 
+Logon
+	`" ++ [233]%N ++ runes_of_ascii "`
+, 
+string
+
+    Pad  @calculatedFrom(
+""\n""	) 
+/// triple
+// trailing space 
+	,
+zchar[0123456789]Foo
+
+@lengthOf(charz	) `// not a comment`,
+
+@rightPad
+
+    (
+    ) match
+falsey as  Packet{
+	""""
+    :	u 
+,
+
+65535
+:
+    float	,  [  4294967296] :
+
+trueish // trailing space 
+  ,
+
+    [
+10
+	, 0123456789]
+: Logon
+
+    ,
+
+1
+: roots
+
+    [	7
+,
+""\" ++ [233]%N ++ runes_of_ascii """
+,00 
+        //
+		] :
+
+float,
+
+}
+
+,
+}
+
+")).
+Eval vm_compute in ("<<<M4610>>>" ++ check (runes_of_ascii "MetaData u {
+    int8 body,
+    string Packet,
+}
+
+options {
+    matchKey = float64;
+}
+
+packet roots {
+    // " ++ [128512]%N ++ runes_of_ascii " emoji
+    @calculatedFrom(""abc"")
+    match MetaDataX as _x {
+        007 : o,
+        [
+            42, ""x y"", 65535, 1, 65535,
+            ""a	b"", 4294967296, 00
+        ] : f32a,
+        ""CRC32"" : repeatCount,
+        ""CRC32"" : u128,
+    },
+}
+
+options {
+}
+
+MetaData uint8x {
+    char[] u128,
+    body crc `
+        `,
+    lengthOf rootA,// " ++ [128512]%N ++ runes_of_ascii " emoji
+    i8 crc,
+}")).
+Eval vm_compute in ("<<<M1192>>>" ++ check (runes_of_ascii "packet
+    x_y_z { i64 A @lengthOf( u128 ) `a\` ,
+int8
+    pack `u8 x,` ,	@calculatedFrom( """ ++ [233]%N ++ runes_of_ascii "t" ++ [233]%N ++ runes_of_ascii """ )Foo repeatCount ,//
+@calculatedFrom(	""" ++ [28040; 24687]%N ++ runes_of_ascii """
+) uint8 tag
+    // " ++ [27880; 37322]%N ++ runes_of_ascii "
+    , u32
+crc@calculatedFrom( ""a\\"" // packet A { u8 x, }
+)
+, // c
+@calculatedFrom( ""a	b"" ) string u8x
+`// not a comment`
+,
+@tag( 255  )
+    @calculatedFrom(
+""" ++ [128512]%N ++ runes_of_ascii """
+    // `tick` ""quote"" 'q'
+    )char[
+    65535
+    ] lengthOf
+    `{ , }`, u16
+    charz, } MetaData body {Logon Pad
+, } 	 ")).
+Eval vm_compute in ("<<<M458>>>" ++ check (runes_of_ascii "packet tag {match asx as u128 {""1"" : T 0123456789 // trailing space 
+:rootA ,
+    7 : i8i8	,
+65535 : // `tick` ""quote"" 'q'
+chars , }
+    ,
+zchar[
+7 ] options1 , zchar[255]
+asx, @leftPad( '0' ) stringy
+`" ++ [28040; 24687; 31867; 22411]%N ++ runes_of_ascii "`
+,  u64 zchar
+@calculatedFrom(
+    // c
+    ""\n"" )
+, len
+// `tick` ""quote"" 'q'
+// c
+@calculatedFrom( ""// no comment""
+)  `" ++ [28040; 24687; 31867; 22411]%N ++ runes_of_ascii "`//	t
+, @leftPad(  '0' ) tag @lengthOf(	calculatedFrom ) , repeat
+    //
+    uint64 metadata`a\`,}
+")).
+Eval vm_compute in ("<<<M4187>>>" ++ check (runes_of_ascii "// top
+options {
+    // c1a
+    // c1b
+    LittleEndian = true;// c5
+}
+
+// c6
+packet Logon {
+    // c9
+    u8 x,// c12
+    string user,
+    // c15
+}
+
+packet Logout {
+    // c19
+    u16 reason,// c22
+}
+
+packet Empty {
+    // c26
+}// c27
+
+root packet Frame {
+    // c31
+    u16 MsgType,// c34a
+    // c34b
+    u16 BodyLen @lengthOf(Body),
+    u8 flags,
+    Logon Body,// c46
+    u32 trailer,
+    // c49
+}// c50a
+// c50b")).
+Eval vm_compute in ("<<<M3890>>>" ++ check (runes_of_ascii "packet body {
+    Pad {
+        a1 `crlf
+                line`,
+        zchar[007] a1,
+        char[10] x_y_z,
+        repeat zchar[1] metadata `u8 x,`,
+    },
+    string trueish,
+    repeat uint8x u,
+    @tag(007)
+    calculatedFrom {
+        repeat BodyLength `doc`,
+    },
+    int64 lengthOf,/// triple
+    @lengthOf(leftPad)
+    @calculatedFrom(""x y"")
+    @calculatedFrom(""\" ++ [233]%N ++ runes_of_ascii """)
+    falsey a1,
+}")).
+Eval vm_compute in ("<<<M365>>>" ++ check (runes_of_ascii "root
+packet //x
+pack
+{ match matchKey //	t
+as
+int // @lengthOf(
+{ 00 : metadata
+    ,
+    ""a\\""
+    : o ,
+""// no comment"" :// `tick` ""quote"" 'q'
+x ,
+[
+""packet""] : A
+, [ ""\n"",0123456789 , 00 , ""// no comment"" ,007 ,
+255,
+1 ,// c
+0 ]
+    // a // b
+    : metadata ,[ 00] : Pad ,} , } // @lengthOf(
+MetaData tag
+{uint64 i64_`doc` ,
+    } packet BodyLength { repeat
+u32
+u128 , }
+")).
+Eval vm_compute in ("<<<M454>>>" ++ check (runes_of_ascii "//	t
+packet Header
+    { @tag( 0 ) float64
+    //
+    u128 , @tag(65535
+    ) pack `line1
+line2`
+,
+    @tag(1
+    // @lengthOf(
+    )trueish	{
+// " ++ [128512]%N ++ runes_of_ascii " emoji
+// c
+repeat u `it's`  ,} , @lengthOf( repeatCount )	@calculatedFrom(""it's"" )
+    @lengthOf(
+a1 ) string_@lengthOf( string_ ) , }
+MetaData leftPad	{ u8 pack	, // `tick` ""quote"" 'q'
+} packet msg_type { Z9_,
+}")).
+Eval vm_compute in ("<<<M3730>>>" ++ check (runes_of_ascii "options {
+    roots = '\x00'
+    lengthOf = true;
+    Packet = ""packet"";
+    o = ""packet"";
+    A = true;// trailing space 
+}
+
+packet body {
+    _x,
+    zchar[65535] Header @calculatedFrom("""") `u8 x,`,
+}
+
+root packet T {
+    @tag(7)
+    @tag(0)
+    @leftPad('0')
+    // a // b
+    int64 x @lengthOf(Packet),
+    msg_type stringy `" ++ [28040; 24687; 31867; 22411]%N ++ runes_of_ascii "`,
+}/// triple")).
+Eval vm_compute in ("<<<M4365>>>" ++ check (runes_of_ascii "root packet BodyLength {
+    uint16 As `crlf
+        line`,
+}
+
+packet A {
+    @calculatedFrom(""{,}"")
+    f32 trueish `// not a comment`,// `tick` ""quote"" 'q'
+}
+
+packet i8i8 {
+    zchar[007] leftPad,
+    @tag(10)
+    tag @lengthOf(o),
+    float64 T,
+    @calculatedFrom(""a\""b"")
+    string uint8x @calculatedFrom(""abc"") `two words`,
+}")).
+Eval vm_compute in ("<<<M660>>>" ++ check (runes_of_ascii "packet
+BodyLength { }
+root packet
+Logon//x
+{
+@tag(	10 ) @tag(0123456789 )
+    //x
+    repeat float32
+Pad	,	}
+    packet
+f32a{// `tick` ""quote"" 'q'
+@rightPad// " ++ [128512]%N ++ runes_of_ascii " emoji
+( ' '
+    ) // a // b
+repeat chars body , x_y_z @lengthOf( matchKey) ,
+repeat
+float64
+    //x
+    Logon
+    , repeat zchar[
+4294967296 //
+] Foo
+, }")).
+Eval vm_compute in ("<<<M1926>>>" ++ check (runes_of_ascii "MetaData
+    u { }  options {
+// c
+// @lengthOf(
+float = int8 ;rootA =false ; As As =	int16 // `tick` ""quote"" 'q'
+repeatCount
     // trailing space 
-    ""a	b""
-] : float , 00
-: MetaDataX , 00 : options1 // " ++ [128512]%N ++ runes_of_ascii " emoji
-,	1 :a1, 0 : packetx
-    ,}
-    , }")).
-Eval vm_compute in ("<<<M1752>>>" ++ check (runes_of_ascii "options { trueish = ""`tick`"" ; string_= """ ++ [233]%N ++ runes_of_ascii "t" ++ [233]%N ++ runes_of_ascii """
+    =
+    int16
+; u8x =
+    //	t
+    '\x00' ; } options	{
+    repeatCount
+= 0
+u128
+    //
+    = false ; i64_
+// trailing space 
+// `tick` ""quote"" 'q'
+= '0' ; //	t
+}
+")).
+Eval vm_compute in ("<<<M2063>>>" ++ check (runes_of_ascii "MetaData
+    u { }  options {
+// c
+// @lengthOf(
+float = int8 ;rootA =false ; As =	int16 // `tick` ""quote"" 'q'
+repeatCount
+    // trailing space 
+    =
+    int16
+; u8x =
+    //	t
+    '\x00' ; " ++ [8232]%N ++ runes_of_ascii " } options	{
+    repeatCount
+= 0
+u128
+    //
+    = false ; i64_
+// trailing space 
+// `tick` ""quote"" 'q'
+= '0' ; //	t
+}
+")).
+Eval vm_compute in ("<<<M1892>>>" ++ check (runes_of_ascii "MetaData
+    u { }  options {
+// c
+// @lengthOf(
+float int8 = ;rootA =false ; As =	int16 // `tick` ""quote"" 'q'
+repeatCount
+    // trailing space 
+    =
+    int16
+; u8x =
+    //	t
+    '\x00' ; } options	{
+    repeatCount
+= 0
+u128
+    //
+    = false ; i64_
+// trailing space 
+// `tick` ""quote"" 'q'
+= '0' ; //	t
+}
+")).
+Eval vm_compute in ("<<<M2042>>>" ++ check (runes_of_ascii "MetaData
+    u { }  options {
+// c
+// @lengthOf(
+float = int8 ;rootA =false ; As =	int16 // `tick` ""quote"" 'q'
+repeatCount
+    // trailing space 
+    =
+    int16
+; u8x =
+    //	t
+    '\x00' ; } options	{
+    repeatCount
+= 0
+u128
+    //
+    = false ; i64_
+// trailing space 
+// `tick` ""quote"" 'q'
+= ; '0' //	t
+}
+")).
+Eval vm_compute in ("<<<M510>>>" ++ check (runes_of_ascii "// trailing space 
+root
+packet x_y_z //	t
+{ @leftPad (
+    )
+repeat
+rootA  {BodyLength body`
+` ,
+u8 leftPad
+@calculatedFrom( ""1""	)``,
+char[007 ] i64_ , } ,u32
+// trailing space 
+// c
+zchar `line1
+line2`, char[ 10
+    // packet A { u8 x, }
+    ]
+    //	t
+    i8i8 @calculatedFrom( """ ++ [233]%N ++ runes_of_ascii "t" ++ [233]%N ++ runes_of_ascii """ ) , }
+packet a1
+    {}
+")).
+Eval vm_compute in ("<<<M1985>>>" ++ check (runes_of_ascii "MetaData
+    u { }  options {
+// c
+// @lengthOf(
+float = int8 ;rootA =false ; As =	int16 // `tick` ""quote"" 'q'
+repeatCount
+    // trailing space 
+    =
+    int16
+; u8x =
+    //	t
+    '\x00' ; } 	{
+    repeatCount
+= 0
+u128
+    //
+    = false ; i64_
+// trailing space 
+// `tick` ""quote"" 'q'
+= '0' ; //	t
+}
+")).
+Eval vm_compute in ("<<<M4103>>>" ++ check (runes_of_ascii "root packet crc {
+    @rightPad('\x00')
+    // a // b
+    repeat i64 As,
+    // @lengthOf(
+    // a // b
+}
+
+packet body {
+}
+
+packet uint8x {
+    options1 @calculatedFrom(""a	b""),
+}
+
+MetaData Packet {
+}
+
+/// triple
+//
+MetaData falsey {
+    char[007] tag `it's`,
+    As leftPad `line1
+        line2`,
+}")).
+Eval vm_compute in ("<<<M3425>>>" ++ check (runes_of_ascii "// top
+packet
+    // c0
+o
+    // c1
+{
+    // c2
+repeat
+    // c3
+Logon
+    // c4
+uint8x
+    // c5
+,
+    // c6
+}
+    // c7
+options
+    // c8
+{
+    // c9
+asx
+    // c10
+=
+    // c11
+zchar[
+    // c12
+3
+    // c13
+]
+    // c14
+stringy
+    // c15
+=
+    // c16
+'\x00'
+    // c17
+}
+    // c18
+")).
+Eval vm_compute in ("<<<M4470>>>" ++ check (runes_of_ascii "packet packetx {
+    match i64_ as roots {
+        7 : x,
+        42 : asx,
+        65535 : i64_,
+        [00, 1] : Z9_,
+        [""\n"", 3, 007] : float,
+    },
+}
+
+MetaData metadata {
+    char[] Header `" ++ [28040; 24687; 31867; 22411]%N ++ runes_of_ascii "`,
+    Foo stringy,
+    uint64 body,
+    f32 a1,
+}
+
+packet chars {
+}")).
+Eval vm_compute in ("<<<M3598>>>" ++ check (runes_of_ascii "packet MDSnapshotZZ {
+    u8 a,
+}
+packet OrderACK {
+    u16 b,
+}
+packet HTTPServerInfo {
+    string s,
+}
+root packet FIXMsg {
+    u8 KType,
+    MDSnapshotZZ,
+    repeat OrderACK,
+    match KType as Body {
+        1 : HTTPServerInfo,
+        2 : OrderACK,
+    },
+}
+")).
+Eval vm_compute in ("<<<M963>>>" ++ check (runes_of_ascii "packet falsey {
+    // a // b
+    char[]x_y_z @lengthOf(  u ) `two words` , } MetaData Packet
+{
+    char[
+3  ] rootA `line1
+line2`
+,
+    string
+    A ,
+} root packet string_ {uint8
+calculatedFrom  @lengthOf( u128 )
+`line1
+line2`, char[ 3] Z9_ ,float , }
+")).
+Eval vm_compute in ("<<<M1520>>>" ++ check (runes_of_ascii "packet
+//	t
+// trailing space 
+_x {
+// packet A { u8 x, }
+// c
+char[
+3
+    ] uint8 @lengthOf(
+u8x ) , @calculatedFrom(""" ++ [128512]%N ++ runes_of_ascii """ // @lengthOf(
+)
+i16	Foo
+@lengthOf(	string_
+    )`doc`	, repeat	i64 metadata , @lengthOf( string_
+) i8 // c
+u  `line1
+line2`	,
+}
+")).
+Eval vm_compute in ("<<<M1668>>>" ++ check (runes_of_ascii "packet
+//	t
+// trailing space 
+_x {
+// packet A { u8 x, }
+// c
+char[
+3
+    ] u8x @lengthOf" ++ [127]%N ++ runes_of_ascii "(
+u8x ) , @calculatedFrom(""" ++ [128512]%N ++ runes_of_ascii """ // @lengthOf(
+)
+i16	Foo
+@lengthOf(	string_
+    )`doc`	, repeat	i64 metadata , @lengthOf( string_
+) i8 // c
+u  `line1
+line2`	,
+}
+")).
+Eval vm_compute in ("<<<M1604>>>" ++ check (runes_of_ascii "packet
+//	t
+// trailing space 
+_x {
+// packet A { u8 x, }
+// c
+char[
+3
+    ] u8x @lengthOf(
+u8x ) , @calculatedFrom(""" ++ [128512]%N ++ runes_of_ascii """ // @lengthOf(
+)
+i16	Foo
+@lengthOf(	string_
+    )`doc`	, repeat	i64 , metadata @lengthOf( string_
+) i8 // c
+u  `line1
+line2`	,
+}
+")).
+Eval vm_compute in ("<<<M1491>>>" ++ check (runes_of_ascii "true
+//	t
+// trailing space 
+_x {
+// packet A { u8 x, }
+// c
+char[
+3
+    ] u8x @lengthOf(
+u8x ) , @calculatedFrom(""" ++ [128512]%N ++ runes_of_ascii """ // @lengthOf(
+)
+i16	Foo
+@lengthOf(	string_
+    )`doc`	, repeat	i64 metadata , @lengthOf( string_
+) i8 // c
+u  `line1
+line2`	,
+}
+")).
+Eval vm_compute in ("<<<M1617>>>" ++ check (runes_of_ascii "packet
+//	t
+// trailing space 
+_x {
+// packet A { u8 x, }
+// c
+char[
+3
+    ] u8x @lengthOf(
+u8x ) , @calculatedFrom(""" ++ [128512]%N ++ runes_of_ascii """ // @lengthOf(
+)
+i16	Foo
+@lengthOf(	string_
+    )`doc`	, repeat	i64 metadata , @lengthOf( 
+) i8 // c
+u  `line1
+line2`	,
+}
+")).
+Eval vm_compute in ("<<<M3612>>>" ++ check (runes_of_ascii "
+packet
+Logon{ 
+string user 
+, } 
+root packet
+
+    Frame  {
+u8
+
+K, match
+K as
+Body	{ 1
+
+:
+	Logon
+, 2
+
+    : Logout
+
+    ,  } ,
+
+Tail ,	}
+	packet
+Logout
+    {u16
+    reason  ,
+
+    }	packet Tail
+    {
+
+    u32  crc
+    , }
+")).
+Eval vm_compute in ("<<<M4139>>>" ++ check (runes_of_ascii "
+packet 	 // a // b
+	  rootA{ Z9_ 	 // c
+	  u
+
+`doc`,// packet A { u8 x, }
+i16
+
+options1
+
+    `// not a comment` , @rightPad
+    (
+    ' ') lengthOf {
+    zchar[// a // b
+    	3 // packet A { u8 x, }
+    ]body
+    , 
+},	} ")).
+Eval vm_compute in ("<<<M527>>>" ++ check (runes_of_ascii "root packet repeatCount{ T {
+char[ 255 ] T
+// c
+// packet A { u8 x, }
+`a\`,zchar[ 00// trailing space 
+]Foo	@lengthOf( repeatCount
+    )// " ++ [128512]%N ++ runes_of_ascii " emoji
+, Foo x_y_z
+, packetx @calculatedFrom( ""packet""
+    )// " ++ [27880; 37322]%N ++ runes_of_ascii "
+,
+}
+    , }
+")).
+Eval vm_compute in ("<<<M1692>>>" ++ check (runes_of_ascii "options { trueish = ""`tick`"" ""`tick`"" ; string_= """ ++ [233]%N ++ runes_of_ascii "t" ++ [233]%N ++ runes_of_ascii """
     // c
     } root
     packet body { stringy @calculatedFrom(
-""a	b"" ""a	b"" ) `line1
+""a	b"" ) `line1
+line2` , }
+packet Logon {
+    @leftPad(
+    ' ' ) //	t
+u16 string_ `u8 x,` ,
+}
+")).
+Eval vm_compute in ("<<<M1699>>>" ++ check (runes_of_ascii "options { trueish = ""`tick`"" float32 string_= """ ++ [233]%N ++ runes_of_ascii "t" ++ [233]%N ++ runes_of_ascii """
+    // c
+    } root
+    packet body { stringy @calculatedFrom(
+""a	b"" ) `line1
 line2` , }
 packet Logon {
     @leftPad(
@@ -2031,136 +2165,123 @@ packet Logon {
 u16 string_ `u8 x,` ,
 }
 ")).
-Eval vm_compute in ("<<<M901>>>" ++ check (runes_of_ascii "packet trueish { @calculatedFrom( """ ++ [28040; 24687]%N ++ runes_of_ascii """ )	repeat
-    Foo
-    {
-repeat float32
-    Logon `" ++ [28040; 24687; 31867; 22411]%N ++ runes_of_ascii "` ,
-    repeat roots zchar , repeat
-char[]	Logon , u8 Logon @lengthOf(
-    f32a) `a\`
-    ,	} ,
-    } //")).
-Eval vm_compute in ("<<<M3904>>>" ++ check (runes_of_ascii "options {
-    trueish = ""`tick`"";
-    string_ = """ ++ [233]%N ++ runes_of_ascii "t" ++ [233]%N ++ runes_of_ascii """
-}
-
-root packet body {
-    stringy @calculatedFrom(""a	b"") `line1
-    line2`,
-}
-
-packet Logon {
-    @leftPad(' ')
-    //	t
-    u16 string_,
-}")).
-Eval vm_compute in ("<<<M3595>>>" ++ check (runes_of_ascii "options {
-    FixedStringPadChar = '0';
-}
-packet Q {
-    zchar[4] z,
-    @rightPad('\x00') char[3] n,
-    char[5] d,
-}
-root packet R {
-    Q,
-    zchar[8] top,
-    repeat zchar[2] zs,
-}
-")).
-Eval vm_compute in ("<<<M3862>>>" ++ check (runes_of_ascii "packet charz {
-    repeat zchar[007] falsey `line1
-        line2`,
-}
-
-root packet leftPad {
-    x metadata,
-}
-
-packet rootA {
-    char[65535] chars,
-}
-
-options {
-    body = ' '
-}")).
-Eval vm_compute in ("<<<M4541>>>" ++ check (runes_of_ascii "root packet metadata {
-    uint64 rootA `it's`,
-}
-
-packet Header {
-}
-
-options {
-    Z9_ = 255;
-    metadata = int32;
-    trueish = ' ';
-    i64_ = '\x00'
-    stringy = 00
-}")).
-Eval vm_compute in ("<<<M1964>>>" ++ check (runes_of_ascii "MetaData
-    u { }  options {
-// c
-// @lengthOf(
-float = int8 ;rootA =false ; As =	int16 // `tick` ""quote"" 'q'
-repeatCount
-    // trailing space 
+Eval vm_compute in ("<<<M1162>>>" ++ check (runes_of_ascii "packet
+chars{ @tag( 7 )char options1
+    // a // b
+    @calculatedFrom( ""a\""b"" ) , Logon	,  zchar[	42 ]u128 ,} options { roots
     =
-    int16
-;")).
-Eval vm_compute in ("<<<M4158>>>" ++ check (runes_of_ascii "// top
-packet metadata {
-    // c2
-    Logon {
-        // c4
-        A `" ++ [28040; 24687; 31867; 22411]%N ++ runes_of_ascii "`,
-        // c7
-        tag o,
-    },
-    // c12
-    zchar len `// not a comment`,
-}")).
-Eval vm_compute in ("<<<M34>>>" ++ check (runes_of_ascii "// " ++ [27880; 37322]%N ++ runes_of_ascii "
-root packet chars { @rightPad(
-    //	t
-    )
-    u8x @calculatedFrom( ""a	b"" ) `line1
-line2` ,
-repeat
-tag {
-    repeat options1 f32a
-    `" ++ [28040; 24687; 31867; 22411]%N ++ runes_of_ascii "` , },	}
+false ; u128 ='0' ; metadata = uint8 ;  falsey
+= //x
+true ;	}
 ")).
-Eval vm_compute in ("<<<M2385>>>" ++ check (runes_of_ascii "// c
+Eval vm_compute in ("<<<M185>>>" ++ check (runes_of_ascii "packet a1 {
+    char[ 0 ]
+len
+    `two words` , char[ 00 ]packetx ,} MetaData pack // a // b
+{	int64 a1 `crlf
+line` ,i64_  Foo,
+char[0123456789
+// " ++ [128512]%N ++ runes_of_ascii " emoji
+// " ++ [27880; 37322]%N ++ runes_of_ascii "
+] x
+    `tab	here` ,
+    }
+
+")).
+Eval vm_compute in ("<<<M3210>>>" ++ check (runes_of_ascii "packet metadata // c1a
+  // c1b
+{ Logon // c3
+{ // c4
+A `" ++ [28040; 24687; 31867; 22411]%N ++ runes_of_ascii "`
+    // c6
+, // c7a
+  // c7b
+tag o , // c10a
+  // c10b
+} // c11a
+  // c11b
+, // c12
+zchar len // c14
+`// not a comment` , } ")).
+Eval vm_compute in ("<<<M966>>>" ++ check (runes_of_ascii "packet metadata
+    {}
+    packet charz // `tick` ""quote"" 'q'
+{
+    repeat
+string len ,string_@lengthOf(
+x_y_z )
+`" ++ [233]%N ++ runes_of_ascii "`
+, repeat asx,
+    // @lengthOf(
+    } MetaData
+f32a
+    { }")).
+Eval vm_compute in ("<<<M742>>>" ++ check (runes_of_ascii "options { packetx
+=zchar[4294967296 ] ; }
+options {	} MetaData uint8x {char[ 3 ]	o `
+`
+// a // b
+// `tick` ""quote"" 'q'
+, crc string_ ,
+    char[]
+int,// trailing space 
+}")).
+Eval vm_compute in ("<<<M1201>>>" ++ check (runes_of_ascii "packet
+falsey {lengthOf
+{ char[
+    // packet A { u8 x, }
+    65535 ] Header	@calculatedFrom(""a\\""
+)
+    /// triple
+    ,
+repeat x
+len,},
+    } MetaData
+x_y_z {	}
+")).
+Eval vm_compute in ("<<<M1083>>>" ++ check (runes_of_ascii "// c
+options
+    //	t
+    {
+// `tick` ""quote"" 'q'
+/// triple
+repeatCount =
+    00 tag
+= ""{,}""MetaDataX = '0'o=
+""`tick`""
+//x
+// `tick` ""quote"" 'q'
+a1 = ""abc""
+}
+")).
+Eval vm_compute in ("<<<M2175>>>" ++ check (runes_of_ascii "options{
+_x
+= true
+} options
+{ o	= /// triple
+false
+    ; chars
+= ""\n"" } root packet	Pad
+/// triple
+// packet A { u8 x, }
+{	chars chars
+    // a // b
+    ,}")).
+Eval vm_compute in ("<<<M2326>>>" ++ check (runes_of_ascii "// c
 packet x { @lengthOf( metadata ) repeat lengthOf
 ,a1{
 trueish	,// c
 repeat//	t
-MetaDataX ` , } , zchar[
+MetaDataX , } , zchar[
     42	] rootA // `tick` ""quote"" 'q'
-,
+, ,
     }
 ")).
-Eval vm_compute in ("<<<M2140>>>" ++ check (runes_of_ascii "options{
+Eval vm_compute in ("<<<M2081>>>" ++ check (runes_of_ascii "options{ {
 _x
 = true
 } options
 { o	= /// triple
-false
-    ; chars
-= = ""\n"" } root packet	Pad
-/// triple
-// packet A { u8 x, }
-{	chars
-    // a // b
-    ,}")).
-Eval vm_compute in ("<<<M2122>>>" ++ check (runes_of_ascii "options{
-_x
-= true
-} options
-{ o	u8 /// triple
 false
     ; chars
 = ""\n"" } root packet	Pad
@@ -2169,45 +2290,9 @@ false
 {	chars
     // a // b
     ,}")).
-Eval vm_compute in ("<<<M2111>>>" ++ check (runes_of_ascii "options{
-_x
-= true
-} options
-o {	= /// triple
-false
-    ; chars
-= ""\n"" } root packet	Pad
-/// triple
-// packet A { u8 x, }
-{	chars
-    // a // b
-    ,}")).
-Eval vm_compute in ("<<<M2139>>>" ++ check (runes_of_ascii "options{
-_x
-= true
-} options
-{ o	= /// triple
-false
-    ; chars
- ""\n"" } root packet	Pad
-/// triple
-// packet A { u8 x, }
-{	chars
-    // a // b
-    ,}")).
-Eval vm_compute in ("<<<M140>>>" ++ check (runes_of_ascii "packet Logon {
-    stringy
-crc	`crlf
-line`
-, T
-@calculatedFrom( ""a\""b""
-    ) // packet A { u8 x, }
-`u8 x,` // " ++ [27880; 37322]%N ++ runes_of_ascii "
-, }  options {	leftPad =  '\x00'}
-")).
-Eval vm_compute in ("<<<M2420>>>" ++ check (runes_of_ascii "// c
-packet x { @lengthOf( metadata ) repeat 
-,a1{
+Eval vm_compute in ("<<<M2415>>>" ++ check (runes_of_ascii "// c
+packet x { @lengthOf( metadata ) repeat lengthOf
+,{a1
 trueish	,// c
 repeat//	t
 MetaDataX , } , zchar[
@@ -2215,322 +2300,390 @@ MetaDataX , } , zchar[
 ,
     }
 ")).
-Eval vm_compute in ("<<<M306>>>" ++ check (runes_of_ascii "packet
-    u128
-{ @lengthOf( options1
-)repeat int`" ++ [28040; 24687; 31867; 22411]%N ++ runes_of_ascii "` ,
-@calculatedFrom(
-    """" )
-repeat
-f32 Z9_	,
-zchar[
-007
-] msg_type
-`doc`
-    ,
-}
-")).
-Eval vm_compute in ("<<<M3721>>>" ++ check (runes_of_ascii "packet falsey {
-}
-
-packet stringy {
-    repeatCount @calculatedFrom(""a	b""),
-    @lengthOf(string_)
-    repeat i64_ metadata `
-        `,
-}")).
-Eval vm_compute in ("<<<M4239>>>" ++ check (runes_of_ascii "packet A {
+Eval vm_compute in ("<<<M2091>>>" ++ check (runes_of_ascii "options{
+_x
+true =
+} options
+{ o	= /// triple
+false
+    ; chars
+= ""\n"" } root packet	Pad
+/// triple
+// packet A { u8 x, }
+{	chars
+    // a // b
+    ,}")).
+Eval vm_compute in ("<<<M1321>>>" ++ check (runes_of_ascii "  options
+{ Pad =  zchar[ 0 ] ;
+    tag=char[ 4294967296
+    ] ; u128=	false ; } MetaData repeatCount
+    {
+u16 u128, }  options {
+leftPad
+    = '0'; }")).
+Eval vm_compute in ("<<<M2205>>>" ++ check (runes_of_ascii "options{
+_x
+= true
+} options
+{ o	= /// triple
+false
+    ; " ++ [21517; 23383]%N ++ runes_of_ascii "
+= ""\n"" } root packet	Pad
+/// triple
+// packet A { u8 x, }
+{	chars
+    // a // b
+    ,}")).
+Eval vm_compute in ("<<<M2134>>>" ++ check (runes_of_ascii "options{
+_x
+= true
+} options
+{ o	= /// triple
+false
+    ; 
+= ""\n"" } root packet	Pad
+/// triple
+// packet A { u8 x, }
+{	chars
+    // a // b
+    ,}")).
+Eval vm_compute in ("<<<M4149>>>" ++ check (runes_of_ascii "packet A {
     match k as n {
         [
-            1, 22, 4, 5, 7,
-            8, ""c c"", ""f""
+            ""a"", ""bb"", 007, ""d"", ""e"",
+            66, ""g"", ""h"", 9
         ] : B,
         2 : C,
     },
 }")).
-Eval vm_compute in ("<<<M4493>>>" ++ check (runes_of_ascii "
-
-  // top
-	  root 	 // c0
-	packet // c1
-    u128	// c2
-    { 	 // c3
-
-chars// c4
-	  `it's`	// c5
-      ,	// c6
-    }	// c7
-")).
-Eval vm_compute in ("<<<M1319>>>" ++ check (runes_of_ascii "// `tick` ""quote"" 'q'
-options { i8i8
-=
-    // @lengthOf(
-    ""{,}""  ;
-calculatedFrom
-// " ++ [128512]%N ++ runes_of_ascii " emoji
-// trailing space 
-=42 ;
+Eval vm_compute in ("<<<M1337>>>" ++ check (runes_of_ascii "
+options {
+MetaDataX = 3; matchKey =
+i32 T// packet A { u8 x, }
+= 1
+    } packet Header
+{ string i64_ @lengthOf( Packet ) `say ""hi""`,
 }")).
-Eval vm_compute in ("<<<M3312>>>" ++ check (runes_of_ascii "root // c
-packet matchKey { zchar[ 3 ] pack @calculatedFrom( ""a	b"" ) `doc` , } options { } MetaData A { int8 msg_type , }")).
-Eval vm_compute in ("<<<M3344>>>" ++ check (runes_of_ascii "root packet matchKey { zchar[ 3 ] pack @calculatedFrom( ""a	b"" ) `doc` , } options { } // c
-MetaData A { int8 msg_type , }")).
-Eval vm_compute in ("<<<M1481>>>" ++ check (runes_of_ascii "
-packet
-    falsey { Header@calculatedFrom(""packet""  ) , char[
-    0123456789 ''] packetx
-    , } // `tick` ""quote"" 'q'")).
-Eval vm_compute in ("<<<M1430>>>" ++ check (runes_of_ascii "
-packet
-    falsey { Header@calculatedFrom(""packet""  ] , char[
-    0123456789 ] packetx
-    , } // `tick` ""quote"" 'q'")).
-Eval vm_compute in ("<<<M4387>>>" ++ check (runes_of_ascii "packet A {
-    u16 len @lengthOf(body) `a
-    b`,
-    u32 crc @calculatedFrom(""CRC32"") `a
-    b`,
-    string body,
-}")).
-Eval vm_compute in ("<<<M4438>>>" ++ check (runes_of_ascii "options { 
-rootA= i64 i64_ 
-=  true	matchKey
-
-    =  '\x00'
-
-    charz  // packet A { u8 x, }
-=false 
-;
-	}
-")).
-Eval vm_compute in ("<<<M3057>>>" ++ check (runes_of_ascii "packet A {
-    match k as n {
-        ""\
-"" : B,
-        [""\
-"", 1] : C,
-        [1,2,3,4,5,""\
-""] : D,
-    },
-}")).
-Eval vm_compute in ("<<<M2965>>>" ++ check (runes_of_ascii "packet A {
-  match k as n {
-    [""a"", ""bb"", ""c c"", ""d"", ""e"", ""f"", ""g"", ""h"", ""i"", ""j""] : B
-    2 : C
-  },
-}")).
-Eval vm_compute in ("<<<M2982>>>" ++ check (runes_of_ascii "packet A {
-  match k as n {
-    [""a"", 22, ""c c"", 4, ""e"", 66, ""g"", 8, ""i"", 10, ""k""] : B
-    2 : C
-  },
-}")).
-Eval vm_compute in ("<<<M2355>>>" ++ check (runes_of_ascii "// c
-packet x { @lengthOf( metadata ) repeat lengthOf
-,a1{
-trueish	,// c
-repeat//	t
-MetaDataX , } ,")).
-Eval vm_compute in ("<<<M2966>>>" ++ check (runes_of_ascii "packet A {
-  match k as n {
-    [1, ""bb"", 007, ""d"", 5, ""f"", 7, ""h"", 9, ""j""] : B,
-    2 : C
-  },
-}")).
-Eval vm_compute in ("<<<M4542>>>" ++ check (runes_of_ascii "  packet
-
-    A{
-Inner 
-{  u8 x
-	`a
-    b
-  c`
-, Deep 
-{	u8  y`a
-    b
-  c`,	} ,}
-    , }
-
-")).
-Eval vm_compute in ("<<<M1466>>>" ++ check (runes_of_ascii "
-packet
-    falsey { Header@calculatedFrom(""packet""  ) , char[
-    0123456789 ] packetx
-    ")).
-Eval vm_compute in ("<<<M2957>>>" ++ check (runes_of_ascii "packet A {
-  match k as n {
-    [1, 22, ""c c"", 4, 5, ""f"", 7, 8, ""i""] : B,
-    2 : C
-  },
-}")).
-Eval vm_compute in ("<<<M3280>>>" ++ check (runes_of_ascii "MetaData float { float64 charz `
-`
-// c
-, } root packet chars { @rightPad ( '0' ) Foo , }")).
-Eval vm_compute in ("<<<M3491>>>" ++ check (runes_of_ascii "packet chars { } // c
-packet MetaDataX { @tag( 42 ) i16 string_ , repeat x `say ""hi""` , }")).
-Eval vm_compute in ("<<<M16>>>" ++ check (runes_of_ascii "packet Z9_// packet A { u8 x, }
-{ @tag(
-4294967296 )uint8x@calculatedFrom( ""abc"" ), }
-
-")).
-Eval vm_compute in ("<<<M2297>>>" ++ check (runes_of_ascii "options
-{ } options { BodyLength= u16 Header=~ f64 ; u128 =
-    true
-    ; } // a // b")).
-Eval vm_compute in ("<<<M2223>>>" ++ check (runes_of_ascii "options
-{ } { options BodyLength= u16 Header= f64 ; u128 =
-    true
-    ; } // a // b")).
-Eval vm_compute in ("<<<M3230>>>" ++ check (runes_of_ascii "packet metadata { Logon { A `" ++ [28040; 24687; 31867; 22411]%N ++ runes_of_ascii "` , tag
-// c
-o , } , zchar len `// not a comment` , }")).
-Eval vm_compute in ("<<<M2244>>>" ++ check (runes_of_ascii "options
-{ } options { BodyLength= as Header= f64 ; u128 =
-    true
-    ; } // a // b")).
-Eval vm_compute in ("<<<M3450>>>" ++ check (runes_of_ascii "packet o { repeat Logon uint8x , } options { asx
-// c
-= zchar[ 3 ] stringy = '\x00' }")).
-Eval vm_compute in ("<<<M147>>>" ++ check (runes_of_ascii "packet
-    zchar { @lengthOf(Header )f32 string_ `a\`
-    , } // packet A { u8 x, }")).
-Eval vm_compute in ("<<<M3395>>>" ++ check (runes_of_ascii "MetaData
-// c
-body { i64 pack `it's` , } packet stringy { int16 calculatedFrom , }")).
-Eval vm_compute in ("<<<M1740>>>" ++ check (runes_of_ascii "options { trueish = ""`tick`"" ; string_= """ ++ [233]%N ++ runes_of_ascii "t" ++ [233]%N ++ runes_of_ascii """
-    // c
-    } root
-    packet body")).
-Eval vm_compute in ("<<<M2918>>>" ++ check (runes_of_ascii "packet A {
-  match k as n {
-    [1, 22, ""c c"", 4, 5, ""f""] : B,
-    2 : C
-  },
-}")).
-Eval vm_compute in ("<<<M4307>>>" ++ check (runes_of_ascii "MetaData charz
-	{ 
-} packet
-
-    // " ++ [27880; 37322]%N ++ runes_of_ascii "
-	matchKey
-{ a1
-    repeatCount	,
-}
-")).
-Eval vm_compute in ("<<<M97>>>" ++ check (runes_of_ascii "options // " ++ [27880; 37322]%N ++ runes_of_ascii "
-{
-// packet A { u8 x, }
-// a // b
-}
-    packet T {
-    }
-")).
-Eval vm_compute in ("<<<M4134>>>" ++ check (runes_of_ascii "packet A {
-    match k as n {
-        // b
-        1 : B,
-    },// h
-}")).
-Eval vm_compute in ("<<<M2727>>>" ++ check (runes_of_ascii "MetaData packet true string `doc` = `it's` char[ MetaData false u16")).
-Eval vm_compute in ("<<<M4151>>>" ++ check (runes_of_ascii "root packet P {
-    u8 s_u8,
-    repeat u8 r_u8,
-    u16 b_len,
-}")).
-Eval vm_compute in ("<<<M103>>>" ++ check (runes_of_ascii "
-packet float {
-} MetaData As { char[]
-    trueish , }
-// " ++ [27880; 37322]%N ++ runes_of_ascii "
-")).
-Eval vm_compute in ("<<<M572>>>" ++ check (runes_of_ascii "
-options
+Eval vm_compute in ("<<<M694>>>" ++ check (runes_of_ascii "MetaData Logon
     // a // b
-    {
-    f32a = '0' ;
-}
-options{}
+    { } packet x_y_z {} packet repeatCount
+{ lengthOf @calculatedFrom(
+""" ++ [28040; 24687]%N ++ runes_of_ascii """
+)
+    `// not a comment` ,}
 ")).
-Eval vm_compute in ("<<<M3370>>>" ++ check (runes_of_ascii "packet x {
+Eval vm_compute in ("<<<M443>>>" ++ check (runes_of_ascii "packet  T {
+@lengthOf(// trailing space 
+matchKey // packet A { u8 x, }
+)
+match
+u as crc { [ ""it's"",""CRC32"" ,
+3 ]:Z9_, } , }
+
+")).
+Eval vm_compute in ("<<<M1108>>>" ++ check (runes_of_ascii "options{
+i8i8 = '0';
+    Header = ""packet"" ;
+float  ='0'
 // c
-@rightPad ( ) repeat roots Logon `doc` , }")).
-Eval vm_compute in ("<<<M3181>>>" ++ check (runes_of_ascii "packet A {
-    match k as n {
-        1 : B,// c
-    },
-}")).
-Eval vm_compute in ("<<<M585>>>" ++ check (runes_of_ascii "options {MetaDataX =
-// `tick` ""quote"" 'q'
-//	t
-0; }
-")).
-Eval vm_compute in ("<<<M2861>>>" ++ check (runes_of_ascii "packet A { Inner { match k as n { [1] : B, }, }, }")).
-Eval vm_compute in ("<<<M2831>>>" ++ check (runes_of_ascii "repeat @leftPad false int8 int16 char[ uint64 ]")).
-Eval vm_compute in ("<<<M2611>>>" ++ check (runes_of_ascii "packet A { match k as n { [1,""a"",2] : B, }, }")).
-Eval vm_compute in ("<<<M2855>>>" ++ check (runes_of_ascii ": ( i16 u16 char[ false int8 char i64 int64")).
-Eval vm_compute in ("<<<M3975>>>" ++ check (runes_of_ascii "
+// a // b
+; MetaDataX=int32	;
+    i64_ = zchar[ 255
+    ]
+; }")).
+Eval vm_compute in ("<<<M4581>>>" ++ check (runes_of_ascii "packet
+FooBar
+    { u8
+
+    a	, 
+}	packet
+    foo_bar{u16
+	b ,
+}
+
 root
 
-    packet 
-A {
+    packet R{FooBar
 
-u8 x 
-`
-` , }
+    ,  foo_bar 
+,
+}
 ")).
-Eval vm_compute in ("<<<M729>>>" ++ check (runes_of_ascii "
-packet // packet A { u8 x, }
-rootA { }")).
-Eval vm_compute in ("<<<M2773>>>" ++ check (runes_of_ascii "@tag( i16 MetaData @calculatedFrom( ;")).
-Eval vm_compute in ("<<<M1356>>>" ++ check (runes_of_ascii "packet
-trueish	{ uint16 chars , }
+Eval vm_compute in ("<<<M3338>>>" ++ check (runes_of_ascii "root packet matchKey { zchar[ 3 ] pack @calculatedFrom( ""a	b"" ) `doc` , } // c
+options { } MetaData A { int8 msg_type , }")).
+Eval vm_compute in ("<<<M1448>>>" ++ check (runes_of_ascii "
+packet
+    falsey { Header@calculatedFrom(""packet""  ) , char[
+    0123456789 ] ] packetx
+    , } // `tick` ""quote"" 'q'")).
+Eval vm_compute in ("<<<M4556>>>" ++ check (runes_of_ascii "root packet
+
+    SimpleMessage
+
+    {
+    uint16
+	MsgType`" ++ [28040; 24687; 31867; 22411]%N ++ runes_of_ascii "`
+, string
+
+JsonBody
+
+    `Json" ++ [23383; 31526; 20018; 28040; 24687; 20307]%N ++ runes_of_ascii "`
+,
+
+    }
 ")).
-Eval vm_compute in ("<<<M2825>>>" ++ check ([19; 29165]%N ++ runes_of_ascii "a" ++ [15; 65533; 127; 65533; 65533; 65533; 65533; 17; 65533]%N ++ runes_of_ascii "=" ++ [65533; 65533; 65533; 65533]%N ++ runes_of_ascii "{=xu" ++ [65533; 26]%N ++ runes_of_ascii "6k" ++ [65533]%N ++ runes_of_ascii "N" ++ [65533; 65533; 65533]%N ++ runes_of_ascii "S" ++ [65533]%N ++ runes_of_ascii """r")).
-Eval vm_compute in ("<<<M1336>>>" ++ check (runes_of_ascii "root
-    packet
-chars
-{
-//x
-//
+Eval vm_compute in ("<<<M1462>>>" ++ check (runes_of_ascii "
+packet
+    falsey { Header@calculatedFrom(""packet""  ) , char[
+    0123456789 ] packetx
+    ,  // `tick` ""quote"" 'q'")).
+Eval vm_compute in ("<<<M1415>>>" ++ check (runes_of_ascii "
+packet
+    falsey { }@calculatedFrom(""packet""  ) , char[
+    0123456789 ] packetx
+    , } // `tick` ""quote"" 'q'")).
+Eval vm_compute in ("<<<M3027>>>" ++ check (runes_of_ascii "packet A {
+    u16 len @lengthOf(body) `a
+
+b`,
+    u32 crc @calculatedFrom(""CRC32"") `a
+
+b`,
+    string body,
 }")).
-Eval vm_compute in ("<<<M169>>>" ++ check (runes_of_ascii "packet
-body { // @lengthOf(
-}")).
-Eval vm_compute in ("<<<M1002>>>" ++ check (runes_of_ascii "//x
-options {
-o =//x
-' '
-; }
+Eval vm_compute in ("<<<M53>>>" ++ check (runes_of_ascii "MetaData
+trueish {int
+falsey , char[
+10
+    ] u  , zchar[ 007 ] leftPad , string
+x `two words`
+    ,  }
 ")).
-Eval vm_compute in ("<<<M2591>>>" ++ check (runes_of_ascii "packet A { x @lengthOf(), }")).
-Eval vm_compute in ("<<<M3013>>>" ++ check (runes_of_ascii "packet A {
-    u8 x `
+Eval vm_compute in ("<<<M3560>>>" ++ check (runes_of_ascii "options {
+    LittleEndian = true;
+}
+root packet P {
+    u16 a,
+    u32 Sum @calculatedFrom(""CRC32""),
+}
+")).
+Eval vm_compute in ("<<<M2973>>>" ++ check (runes_of_ascii "packet A {
+  match k as n {
+    [""a"", ""bb"", 007, ""d"", ""e"", 66, ""g"", ""h"", 9, ""j""] : B
+    2 : C
+  },
+}")).
+Eval vm_compute in ("<<<M3034>>>" ++ check (runes_of_ascii "packet A {
+    Inner {
+        u8 x `x
+`,
+        Deep {
+            u8 y `x
+`,
+        },
+    },
+}")).
+Eval vm_compute in ("<<<M962>>>" ++ check (runes_of_ascii "packet
+int
+    { @calculatedFrom( ""a\\""
+    ) repeat
+    // packet A { u8 x, }
+    string int, }")).
+Eval vm_compute in ("<<<M212>>>" ++ check (runes_of_ascii "root packet matchKey{f32a// " ++ [27880; 37322]%N ++ runes_of_ascii "
+`u8 x,` ,	char[]u8x ,
+@calculatedFrom( ""a\""b"" )
+i32 i8i8 , }
+
+")).
+Eval vm_compute in ("<<<M1750>>>" ++ check (runes_of_ascii "options { trueish = ""`tick`"" ; string_= """ ++ [233]%N ++ runes_of_ascii "t" ++ [233]%N ++ runes_of_ascii """
+    // c
+    } root
+    packet body { stringy")).
+Eval vm_compute in ("<<<M3876>>>" ++ check (runes_of_ascii "packet A {
+    B b `a
+        b`,
+    B `a
+        b`,
+    repeat B bs `a
+        b`,
+}")).
+Eval vm_compute in ("<<<M3286>>>" ++ check (runes_of_ascii "MetaData float { float64 charz `
+` , } root
+// c
+packet chars { @rightPad ( '0' ) Foo , }")).
+Eval vm_compute in ("<<<M3497>>>" ++ check (runes_of_ascii "packet chars { } packet MetaDataX { // c
+@tag( 42 ) i16 string_ , repeat x `say ""hi""` , }")).
+Eval vm_compute in ("<<<M2237>>>" ++ check (runes_of_ascii "options
+{ } options { BodyLength= = u16 Header= f64 ; u128 =
+    true
+    ; } // a // b")).
+Eval vm_compute in ("<<<M2306>>>" ++ check (runes_of_ascii "options
+{ } options { BodyLength= u16 Header'= f64 ; u128 =
+    true
+    ; } // a // b")).
+Eval vm_compute in ("<<<M2263>>>" ++ check (runes_of_ascii "options
+{ } options { BodyLength= u16 Header= f64 u128 ; =
+    true
+    ; } // a // b")).
+Eval vm_compute in ("<<<M3237>>>" ++ check (runes_of_ascii "packet metadata { Logon { A `" ++ [28040; 24687; 31867; 22411]%N ++ runes_of_ascii "` , tag o , } , // c
+zchar len `// not a comment` , }")).
+Eval vm_compute in ("<<<M3427>>>" ++ check (runes_of_ascii "// c
+packet o { repeat Logon uint8x , } options { asx = zchar[ 3 ] stringy = '\x00' }")).
+Eval vm_compute in ("<<<M3460>>>" ++ check (runes_of_ascii "packet o { repeat Logon uint8x , } options { asx = zchar[ 3 ] stringy
+// c
+= '\x00' }")).
+Eval vm_compute in ("<<<M2256>>>" ++ check (runes_of_ascii "options
+{ } options { BodyLength= u16 Header=  ; u128 =
+    true
+    ; } // a // b")).
+Eval vm_compute in ("<<<M3403>>>" ++ check (runes_of_ascii "MetaData body { i64 pack
+// c
+`it's` , } packet stringy { int16 calculatedFrom , }")).
+Eval vm_compute in ("<<<M2917>>>" ++ check (runes_of_ascii "packet A {
+  match k as n {
+    [""a"", 22, ""c c"", 4, ""e"", 66] : B
+    2 : C
+  },
+}")).
+Eval vm_compute in ("<<<M3000>>>" ++ check (runes_of_ascii "packet A { Inner { match k as n { [1,22,007,4,5,66,7,8,9,10,11,12] : B, }, }, }")).
+Eval vm_compute in ("<<<M4120>>>" ++ check (runes_of_ascii "
+options
+	{	x_y_z
+
+=  true
+;
+	a1
+=
+
+true
+
+    ;
+
+options1
+=
+	true
+;}
+")).
+Eval vm_compute in ("<<<M4410>>>" ++ check (runes_of_ascii "packet A
+{match k as n
+{ [  1, ""bb""
+, 
+007  , 
+""d""	]
+: 
+B
+2:  C}
+, }
+
+")).
+Eval vm_compute in ("<<<M760>>>" ++ check (runes_of_ascii "packet	i64_ { }options{
+    } options { MetaDataX = ""CRC32""} // a // b")).
+Eval vm_compute in ("<<<M3171>>>" ++ check (runes_of_ascii "packet A { match k as n { [ // a
+ 1 // b
+ , // c
+ 2 ] // d
+ : B }, }")).
+Eval vm_compute in ("<<<M2864>>>" ++ check (runes_of_ascii "packet A {
+  match k as n {
+    [""a"", ""bb""] : B,
+    2 : C
+  },
+}")).
+Eval vm_compute in ("<<<M4028>>>" ++ check (runes_of_ascii "
+
+  root packet P
+	{
+repeat 
+char
+
+    cs	,u8
+
+x
+
+    , }
+")).
+Eval vm_compute in ("<<<M3032>>>" ++ check (runes_of_ascii "packet A {
+    B b `x
+`,
+    B `x
+`,
+    repeat B bs `x
 `,
 }")).
-Eval vm_compute in ("<<<M1062>>>" ++ check (runes_of_ascii "MetaData
-f32a {	A x , }")).
-Eval vm_compute in ("<<<M815>>>" ++ check (runes_of_ascii " // packet A { u8 x, }")).
-Eval vm_compute in ("<<<M2230>>>" ++ check (runes_of_ascii "options
-{ } options")).
-Eval vm_compute in ("<<<M2644>>>" ++ check (runes_of_ascii "MetaData M { u8 x }")).
-Eval vm_compute in ("<<<M2659>>>" ++ check (runes_of_ascii "options { a = b; }")).
-Eval vm_compute in ("<<<M3131>>>" ++ check (runes_of_ascii "// c" ++ [8203]%N ++ runes_of_ascii "
-packet A {
+Eval vm_compute in ("<<<M3173>>>" ++ check (runes_of_ascii "packet A { // a
+ @tag(1) u8 x, // b
+ // c
+ @tag(2) u8 y, }")).
+Eval vm_compute in ("<<<M2857>>>" ++ check (runes_of_ascii "packet A {
+  match k as n {
+    [1] : B,
+    2 : C
+  },
 }")).
-Eval vm_compute in ("<<<M3088>>>" ++ check (runes_of_ascii "packet A {
-}// c" ++ [8202]%N)).
-Eval vm_compute in ("<<<M1366>>>" ++ check (runes_of_ascii "
-// @lengthOf(
+Eval vm_compute in ("<<<M3972>>>" ++ check (runes_of_ascii "
+
+  root 
+packet
+repeatCount{
+	} // trailing space 
+ 
 ")).
-Eval vm_compute in ("<<<M4208>>>" ++ check (runes_of_ascii "  /// triple
+Eval vm_compute in ("<<<M2820>>>" ++ check (runes_of_ascii "true uint8 char[ char[ false i16 @tag( match char[")).
+Eval vm_compute in ("<<<M2790>>>" ++ check (runes_of_ascii ", , [ = '\x00' string zchar '\x00' char[ ; root")).
+Eval vm_compute in ("<<<M2255>>>" ++ check (runes_of_ascii "options
+{ } options { BodyLength= u16 Header")).
+Eval vm_compute in ("<<<M3179>>>" ++ check (runes_of_ascii "packet A { char[ // a
+ 3 // b
+ ] // c
+ x, }")).
+Eval vm_compute in ("<<<M2610>>>" ++ check (runes_of_ascii "packet A { match k as n { [1 2] : B }, }")).
+Eval vm_compute in ("<<<M2609>>>" ++ check (runes_of_ascii "packet A { match k as n { [1,] : B }, }")).
+Eval vm_compute in ("<<<M3813>>>" ++ check (runes_of_ascii "packet A {
+    u8 x `a
+        b`,
+}")).
+Eval vm_compute in ("<<<M2561>>>" ++ check (runes_of_ascii "packet A { repeat x @lengthOf(y), }")).
+Eval vm_compute in ("<<<M4491>>>" ++ check (runes_of_ascii "root packet Z9_ {
+    // " ++ [128512]%N ++ runes_of_ascii " emoji
+}")).
+Eval vm_compute in ("<<<M3042>>>" ++ check (runes_of_ascii "root packet A {
+    u8 x `
+x`,
+}")).
+Eval vm_compute in ("<<<M2700>>>" ++ check (runes_of_ascii "Pad as char root float32 : u16")).
+Eval vm_compute in ("<<<M1889>>>" ++ check (runes_of_ascii "MetaData
+    u { }  options {")).
+Eval vm_compute in ("<<<M2624>>>" ++ check (runes_of_ascii "packet A { @leftPad u8 x, }")).
+Eval vm_compute in ("<<<M3253>>>" ++ check (runes_of_ascii "
+// c
+root packet pack { }")).
+Eval vm_compute in ("<<<M4603>>>" ++ check (runes_of_ascii "MetaData 	 // c
+	o { }
 ")).
+Eval vm_compute in ("<<<M51>>>" ++ check (runes_of_ascii "packet BodyLength {}
+")).
+Eval vm_compute in ("<<<M4266>>>" ++ check (runes_of_ascii "
+packet A
+{ } 
+// c" ++ [6158]%N)).
+Eval vm_compute in ("<<<M1695>>>" ++ check (runes_of_ascii "options { trueish =")).
+Eval vm_compute in ("<<<M1879>>>" ++ check (runes_of_ascii "MetaData
+    u { }")).
+Eval vm_compute in ("<<<M3123>>>" ++ check (runes_of_ascii "packet A {
+}// c 	")).
+Eval vm_compute in ("<<<M3083>>>" ++ check (runes_of_ascii "packet A {
+}// c" ++ [8192]%N)).
+Eval vm_compute in ("<<<M915>>>" ++ check (runes_of_ascii "packet body { }")).
+Eval vm_compute in ("<<<M2840>>>" ++ check (runes_of_ascii "x" ++ [65533]%N ++ runes_of_ascii "V" ++ [65533; 65533; 65533]%N ++ runes_of_ascii "yj" ++ [65533; 65533; 65533]%N ++ runes_of_ascii "w" ++ [65533]%N)).
 Eval vm_compute in ("<<<M2486>>>" ++ check (runes_of_ascii "@centerPad")).
-Eval vm_compute in ("<<<M2777>>>" ++ check (runes_of_ascii ", } char")).
-Eval vm_compute in ("<<<M2434>>>" ++ check (runes_of_ascii "zchar[")).
-Eval vm_compute in ("<<<M2474>>>" ++ check (runes_of_ascii "'\x0'")).
-Eval vm_compute in ("<<<M2443>>>" ++ check (runes_of_ascii "uint")).
-Eval vm_compute in ("<<<M2454>>>" ++ check (runes_of_ascii "asx")).
-Eval vm_compute in ("<<<M476>>>" ++ check (runes_of_ascii "
+Eval vm_compute in ("<<<M132>>>" ++ check (runes_of_ascii "
+
+// c
 ")).
-Eval vm_compute in ("<<<M2557>>>" ++ check ([21517]%N)).
+Eval vm_compute in ("<<<M2513>>>" ++ check (runes_of_ascii """a\
+b""")).
+Eval vm_compute in ("<<<M2752>>>" ++ check (runes_of_ascii "x\SS\")).
+Eval vm_compute in ("<<<M2503>>>" ++ check (runes_of_ascii "//x")).
+Eval vm_compute in ("<<<M2525>>>" ++ check (runes_of_ascii "`""`")).
+Eval vm_compute in ("<<<M2508>>>" ++ check (runes_of_ascii """a")).
+Eval vm_compute in ("<<<M2791>>>" ++ check ([65533]%N)).
